@@ -592,4 +592,719 @@ theorem D_const_eq_loop {n : Nat} (c : α) : D.const (n := n) c = L.const c := r
 theorem D_varBase_eq_loop {n : Nat} (c : α) : D.varBase (n := n) c = L.varBase c := rfl
 theorem D_ops_eq_loop {n : Nat} : (D.ops : ADOps α n) = L.ops := rfl
 
+/-! ### second operator set (`x op= x`, comparison operators, factories): every specialisation and the
+    dynamic class compute the expressions of the generic loop form, for every carrier type -/
+section second
+variable [LT α] [DecidableLT α] [LE α] [DecidableLE α] [BEq α]
+
+/-! #### Evaluation1.hpp -/
+theorem U1_addSelf_eq_loop (a : Fin (2) → α) : U1.addSelf a = L.addSelf (n := 1) a := by
+  funext i; fin_cases i <;> rfl
+theorem U1_subSelf_eq_loop (a : Fin (2) → α) : U1.subSelf a = L.subSelf (n := 1) a := by
+  funext i; fin_cases i <;> rfl
+theorem U1_mulSelf_eq_loop (a : Fin (2) → α) : U1.mulSelf a = L.mulSelf (n := 1) a := by
+  funext i; fin_cases i <;> rfl
+theorem U1_divSelf_eq_loop (a : Fin (2) → α) : U1.divSelf a = L.divSelf (n := 1) a := by
+  funext i; fin_cases i <;> rfl
+theorem U1_eqE_eq_loop (a b : Fin (2) → α) : U1.eqE a b = L.eqE (n := 1) a b := by
+  first | rfl | (unfold U1.eqE L.eqE; congr 2; funext i; fin_cases i <;> rfl) | (unfold U1.eqE L.eqE; congr 3; funext i; fin_cases i <;> rfl)
+theorem U1_neE_eq_loop (a b : Fin (2) → α) : U1.neE a b = L.neE (n := 1) a b := by
+  first | rfl | (unfold U1.neE L.neE; congr 2; funext i; fin_cases i <;> rfl) | (unfold U1.neE L.neE; congr 3; funext i; fin_cases i <;> rfl)
+theorem U1_ltE_eq_loop (a b : Fin (2) → α) : U1.ltE a b = L.ltE (n := 1) a b := by
+  first | rfl | (unfold U1.ltE L.ltE; congr 2; funext i; fin_cases i <;> rfl) | (unfold U1.ltE L.ltE; congr 3; funext i; fin_cases i <;> rfl)
+theorem U1_gtE_eq_loop (a b : Fin (2) → α) : U1.gtE a b = L.gtE (n := 1) a b := by
+  first | rfl | (unfold U1.gtE L.gtE; congr 2; funext i; fin_cases i <;> rfl) | (unfold U1.gtE L.gtE; congr 3; funext i; fin_cases i <;> rfl)
+theorem U1_leE_eq_loop (a b : Fin (2) → α) : U1.leE a b = L.leE (n := 1) a b := by
+  first | rfl | (unfold U1.leE L.leE; congr 2; funext i; fin_cases i <;> rfl) | (unfold U1.leE L.leE; congr 3; funext i; fin_cases i <;> rfl)
+theorem U1_geE_eq_loop (a b : Fin (2) → α) : U1.geE a b = L.geE (n := 1) a b := by
+  first | rfl | (unfold U1.geE L.geE; congr 2; funext i; fin_cases i <;> rfl) | (unfold U1.geE L.geE; congr 3; funext i; fin_cases i <;> rfl)
+theorem U1_eqS_eq_loop (a : Fin (2) → α) (c : α) : U1.eqS a c = L.eqS (n := 1) a c := by
+  first | rfl | (unfold U1.eqS L.eqS; congr 2; funext i; fin_cases i <;> rfl) | (unfold U1.eqS L.eqS; congr 3; funext i; fin_cases i <;> rfl)
+theorem U1_neS_eq_loop (a : Fin (2) → α) (c : α) : U1.neS a c = L.neS (n := 1) a c := by
+  first | rfl | (unfold U1.neS L.neS; congr 2; funext i; fin_cases i <;> rfl) | (unfold U1.neS L.neS; congr 3; funext i; fin_cases i <;> rfl)
+theorem U1_ltS_eq_loop (a : Fin (2) → α) (c : α) : U1.ltS a c = L.ltS (n := 1) a c := by
+  first | rfl | (unfold U1.ltS L.ltS; congr 2; funext i; fin_cases i <;> rfl) | (unfold U1.ltS L.ltS; congr 3; funext i; fin_cases i <;> rfl)
+theorem U1_gtS_eq_loop (a : Fin (2) → α) (c : α) : U1.gtS a c = L.gtS (n := 1) a c := by
+  first | rfl | (unfold U1.gtS L.gtS; congr 2; funext i; fin_cases i <;> rfl) | (unfold U1.gtS L.gtS; congr 3; funext i; fin_cases i <;> rfl)
+theorem U1_leS_eq_loop (a : Fin (2) → α) (c : α) : U1.leS a c = L.leS (n := 1) a c := by
+  first | rfl | (unfold U1.leS L.leS; congr 2; funext i; fin_cases i <;> rfl) | (unfold U1.leS L.leS; congr 3; funext i; fin_cases i <;> rfl)
+theorem U1_geS_eq_loop (a : Fin (2) → α) (c : α) : U1.geS a c = L.geS (n := 1) a c := by
+  first | rfl | (unfold U1.geS L.geS; congr 2; funext i; fin_cases i <;> rfl) | (unfold U1.geS L.geS; congr 3; funext i; fin_cases i <;> rfl)
+theorem U1_sne_eq_loop (c : α) (a : Fin (2) → α) : U1.sne c a = L.sne (n := 1) c a := by
+  first | rfl | (unfold U1.sne L.sne; congr 2; funext i; fin_cases i <;> rfl) | (unfold U1.sne L.sne; congr 3; funext i; fin_cases i <;> rfl)
+theorem U1_slt_eq_loop (c : α) (a : Fin (2) → α) : U1.slt c a = L.slt (n := 1) c a := by
+  first | rfl | (unfold U1.slt L.slt; congr 2; funext i; fin_cases i <;> rfl) | (unfold U1.slt L.slt; congr 3; funext i; fin_cases i <;> rfl)
+theorem U1_sgt_eq_loop (c : α) (a : Fin (2) → α) : U1.sgt c a = L.sgt (n := 1) c a := by
+  first | rfl | (unfold U1.sgt L.sgt; congr 2; funext i; fin_cases i <;> rfl) | (unfold U1.sgt L.sgt; congr 3; funext i; fin_cases i <;> rfl)
+theorem U1_sle_eq_loop (c : α) (a : Fin (2) → α) : U1.sle c a = L.sle (n := 1) c a := by
+  first | rfl | (unfold U1.sle L.sle; congr 2; funext i; fin_cases i <;> rfl) | (unfold U1.sle L.sle; congr 3; funext i; fin_cases i <;> rfl)
+theorem U1_sge_eq_loop (c : α) (a : Fin (2) → α) : U1.sge c a = L.sge (n := 1) c a := by
+  first | rfl | (unfold U1.sge L.sge; congr 2; funext i; fin_cases i <;> rfl) | (unfold U1.sge L.sge; congr 3; funext i; fin_cases i <;> rfl)
+theorem U1_constZero_eq_loop : (U1.constZero : Fin (2) → α) = L.constZero (n := 1) := by
+  funext i; fin_cases i <;> rfl
+theorem U1_constOne_eq_loop : (U1.constOne : Fin (2) → α) = L.constOne (n := 1) := by
+  funext i; fin_cases i <;> rfl
+theorem U1_constX_eq_loop (c : α) : U1.constX c = L.constX (n := 1) c := by
+  funext i; fin_cases i <;> rfl
+theorem U1_varXBase_eq_loop (c : α) : U1.varXBase c = L.varXBase (n := 1) c := by
+  funext i; fin_cases i <;> rfl
+theorem U1_ops2_eq_loop : (U1.ops2 : ADOps2 α 1) = L.ops2 :=
+  ADOps2.ext (funext fun a => U1_addSelf_eq_loop a) (funext fun a => U1_subSelf_eq_loop a) (funext fun a => U1_mulSelf_eq_loop a) (funext fun a => U1_divSelf_eq_loop a) (funext fun a => funext fun b => U1_eqE_eq_loop a b) (funext fun a => funext fun b => U1_neE_eq_loop a b) (funext fun a => funext fun b => U1_ltE_eq_loop a b) (funext fun a => funext fun b => U1_gtE_eq_loop a b) (funext fun a => funext fun b => U1_leE_eq_loop a b) (funext fun a => funext fun b => U1_geE_eq_loop a b) (funext fun a => funext fun c => U1_eqS_eq_loop a c) (funext fun a => funext fun c => U1_neS_eq_loop a c) (funext fun a => funext fun c => U1_ltS_eq_loop a c) (funext fun a => funext fun c => U1_gtS_eq_loop a c) (funext fun a => funext fun c => U1_leS_eq_loop a c) (funext fun a => funext fun c => U1_geS_eq_loop a c) (funext fun c => funext fun a => U1_sne_eq_loop c a) (funext fun c => funext fun a => U1_slt_eq_loop c a) (funext fun c => funext fun a => U1_sgt_eq_loop c a) (funext fun c => funext fun a => U1_sle_eq_loop c a) (funext fun c => funext fun a => U1_sge_eq_loop c a) (U1_constZero_eq_loop) (U1_constOne_eq_loop) (funext fun c => U1_constX_eq_loop c) (funext fun c => U1_varXBase_eq_loop c)
+
+/-! #### Evaluation2.hpp -/
+theorem U2_addSelf_eq_loop (a : Fin (3) → α) : U2.addSelf a = L.addSelf (n := 2) a := by
+  funext i; fin_cases i <;> rfl
+theorem U2_subSelf_eq_loop (a : Fin (3) → α) : U2.subSelf a = L.subSelf (n := 2) a := by
+  funext i; fin_cases i <;> rfl
+theorem U2_mulSelf_eq_loop (a : Fin (3) → α) : U2.mulSelf a = L.mulSelf (n := 2) a := by
+  funext i; fin_cases i <;> rfl
+theorem U2_divSelf_eq_loop (a : Fin (3) → α) : U2.divSelf a = L.divSelf (n := 2) a := by
+  funext i; fin_cases i <;> rfl
+theorem U2_eqE_eq_loop (a b : Fin (3) → α) : U2.eqE a b = L.eqE (n := 2) a b := by
+  first | rfl | (unfold U2.eqE L.eqE; congr 2; funext i; fin_cases i <;> rfl) | (unfold U2.eqE L.eqE; congr 3; funext i; fin_cases i <;> rfl)
+theorem U2_neE_eq_loop (a b : Fin (3) → α) : U2.neE a b = L.neE (n := 2) a b := by
+  first | rfl | (unfold U2.neE L.neE; congr 2; funext i; fin_cases i <;> rfl) | (unfold U2.neE L.neE; congr 3; funext i; fin_cases i <;> rfl)
+theorem U2_ltE_eq_loop (a b : Fin (3) → α) : U2.ltE a b = L.ltE (n := 2) a b := by
+  first | rfl | (unfold U2.ltE L.ltE; congr 2; funext i; fin_cases i <;> rfl) | (unfold U2.ltE L.ltE; congr 3; funext i; fin_cases i <;> rfl)
+theorem U2_gtE_eq_loop (a b : Fin (3) → α) : U2.gtE a b = L.gtE (n := 2) a b := by
+  first | rfl | (unfold U2.gtE L.gtE; congr 2; funext i; fin_cases i <;> rfl) | (unfold U2.gtE L.gtE; congr 3; funext i; fin_cases i <;> rfl)
+theorem U2_leE_eq_loop (a b : Fin (3) → α) : U2.leE a b = L.leE (n := 2) a b := by
+  first | rfl | (unfold U2.leE L.leE; congr 2; funext i; fin_cases i <;> rfl) | (unfold U2.leE L.leE; congr 3; funext i; fin_cases i <;> rfl)
+theorem U2_geE_eq_loop (a b : Fin (3) → α) : U2.geE a b = L.geE (n := 2) a b := by
+  first | rfl | (unfold U2.geE L.geE; congr 2; funext i; fin_cases i <;> rfl) | (unfold U2.geE L.geE; congr 3; funext i; fin_cases i <;> rfl)
+theorem U2_eqS_eq_loop (a : Fin (3) → α) (c : α) : U2.eqS a c = L.eqS (n := 2) a c := by
+  first | rfl | (unfold U2.eqS L.eqS; congr 2; funext i; fin_cases i <;> rfl) | (unfold U2.eqS L.eqS; congr 3; funext i; fin_cases i <;> rfl)
+theorem U2_neS_eq_loop (a : Fin (3) → α) (c : α) : U2.neS a c = L.neS (n := 2) a c := by
+  first | rfl | (unfold U2.neS L.neS; congr 2; funext i; fin_cases i <;> rfl) | (unfold U2.neS L.neS; congr 3; funext i; fin_cases i <;> rfl)
+theorem U2_ltS_eq_loop (a : Fin (3) → α) (c : α) : U2.ltS a c = L.ltS (n := 2) a c := by
+  first | rfl | (unfold U2.ltS L.ltS; congr 2; funext i; fin_cases i <;> rfl) | (unfold U2.ltS L.ltS; congr 3; funext i; fin_cases i <;> rfl)
+theorem U2_gtS_eq_loop (a : Fin (3) → α) (c : α) : U2.gtS a c = L.gtS (n := 2) a c := by
+  first | rfl | (unfold U2.gtS L.gtS; congr 2; funext i; fin_cases i <;> rfl) | (unfold U2.gtS L.gtS; congr 3; funext i; fin_cases i <;> rfl)
+theorem U2_leS_eq_loop (a : Fin (3) → α) (c : α) : U2.leS a c = L.leS (n := 2) a c := by
+  first | rfl | (unfold U2.leS L.leS; congr 2; funext i; fin_cases i <;> rfl) | (unfold U2.leS L.leS; congr 3; funext i; fin_cases i <;> rfl)
+theorem U2_geS_eq_loop (a : Fin (3) → α) (c : α) : U2.geS a c = L.geS (n := 2) a c := by
+  first | rfl | (unfold U2.geS L.geS; congr 2; funext i; fin_cases i <;> rfl) | (unfold U2.geS L.geS; congr 3; funext i; fin_cases i <;> rfl)
+theorem U2_sne_eq_loop (c : α) (a : Fin (3) → α) : U2.sne c a = L.sne (n := 2) c a := by
+  first | rfl | (unfold U2.sne L.sne; congr 2; funext i; fin_cases i <;> rfl) | (unfold U2.sne L.sne; congr 3; funext i; fin_cases i <;> rfl)
+theorem U2_slt_eq_loop (c : α) (a : Fin (3) → α) : U2.slt c a = L.slt (n := 2) c a := by
+  first | rfl | (unfold U2.slt L.slt; congr 2; funext i; fin_cases i <;> rfl) | (unfold U2.slt L.slt; congr 3; funext i; fin_cases i <;> rfl)
+theorem U2_sgt_eq_loop (c : α) (a : Fin (3) → α) : U2.sgt c a = L.sgt (n := 2) c a := by
+  first | rfl | (unfold U2.sgt L.sgt; congr 2; funext i; fin_cases i <;> rfl) | (unfold U2.sgt L.sgt; congr 3; funext i; fin_cases i <;> rfl)
+theorem U2_sle_eq_loop (c : α) (a : Fin (3) → α) : U2.sle c a = L.sle (n := 2) c a := by
+  first | rfl | (unfold U2.sle L.sle; congr 2; funext i; fin_cases i <;> rfl) | (unfold U2.sle L.sle; congr 3; funext i; fin_cases i <;> rfl)
+theorem U2_sge_eq_loop (c : α) (a : Fin (3) → α) : U2.sge c a = L.sge (n := 2) c a := by
+  first | rfl | (unfold U2.sge L.sge; congr 2; funext i; fin_cases i <;> rfl) | (unfold U2.sge L.sge; congr 3; funext i; fin_cases i <;> rfl)
+theorem U2_constZero_eq_loop : (U2.constZero : Fin (3) → α) = L.constZero (n := 2) := by
+  funext i; fin_cases i <;> rfl
+theorem U2_constOne_eq_loop : (U2.constOne : Fin (3) → α) = L.constOne (n := 2) := by
+  funext i; fin_cases i <;> rfl
+theorem U2_constX_eq_loop (c : α) : U2.constX c = L.constX (n := 2) c := by
+  funext i; fin_cases i <;> rfl
+theorem U2_varXBase_eq_loop (c : α) : U2.varXBase c = L.varXBase (n := 2) c := by
+  funext i; fin_cases i <;> rfl
+theorem U2_ops2_eq_loop : (U2.ops2 : ADOps2 α 2) = L.ops2 :=
+  ADOps2.ext (funext fun a => U2_addSelf_eq_loop a) (funext fun a => U2_subSelf_eq_loop a) (funext fun a => U2_mulSelf_eq_loop a) (funext fun a => U2_divSelf_eq_loop a) (funext fun a => funext fun b => U2_eqE_eq_loop a b) (funext fun a => funext fun b => U2_neE_eq_loop a b) (funext fun a => funext fun b => U2_ltE_eq_loop a b) (funext fun a => funext fun b => U2_gtE_eq_loop a b) (funext fun a => funext fun b => U2_leE_eq_loop a b) (funext fun a => funext fun b => U2_geE_eq_loop a b) (funext fun a => funext fun c => U2_eqS_eq_loop a c) (funext fun a => funext fun c => U2_neS_eq_loop a c) (funext fun a => funext fun c => U2_ltS_eq_loop a c) (funext fun a => funext fun c => U2_gtS_eq_loop a c) (funext fun a => funext fun c => U2_leS_eq_loop a c) (funext fun a => funext fun c => U2_geS_eq_loop a c) (funext fun c => funext fun a => U2_sne_eq_loop c a) (funext fun c => funext fun a => U2_slt_eq_loop c a) (funext fun c => funext fun a => U2_sgt_eq_loop c a) (funext fun c => funext fun a => U2_sle_eq_loop c a) (funext fun c => funext fun a => U2_sge_eq_loop c a) (U2_constZero_eq_loop) (U2_constOne_eq_loop) (funext fun c => U2_constX_eq_loop c) (funext fun c => U2_varXBase_eq_loop c)
+
+/-! #### Evaluation3.hpp -/
+theorem U3_addSelf_eq_loop (a : Fin (4) → α) : U3.addSelf a = L.addSelf (n := 3) a := by
+  funext i; fin_cases i <;> rfl
+theorem U3_subSelf_eq_loop (a : Fin (4) → α) : U3.subSelf a = L.subSelf (n := 3) a := by
+  funext i; fin_cases i <;> rfl
+theorem U3_mulSelf_eq_loop (a : Fin (4) → α) : U3.mulSelf a = L.mulSelf (n := 3) a := by
+  funext i; fin_cases i <;> rfl
+theorem U3_divSelf_eq_loop (a : Fin (4) → α) : U3.divSelf a = L.divSelf (n := 3) a := by
+  funext i; fin_cases i <;> rfl
+theorem U3_eqE_eq_loop (a b : Fin (4) → α) : U3.eqE a b = L.eqE (n := 3) a b := by
+  first | rfl | (unfold U3.eqE L.eqE; congr 2; funext i; fin_cases i <;> rfl) | (unfold U3.eqE L.eqE; congr 3; funext i; fin_cases i <;> rfl)
+theorem U3_neE_eq_loop (a b : Fin (4) → α) : U3.neE a b = L.neE (n := 3) a b := by
+  first | rfl | (unfold U3.neE L.neE; congr 2; funext i; fin_cases i <;> rfl) | (unfold U3.neE L.neE; congr 3; funext i; fin_cases i <;> rfl)
+theorem U3_ltE_eq_loop (a b : Fin (4) → α) : U3.ltE a b = L.ltE (n := 3) a b := by
+  first | rfl | (unfold U3.ltE L.ltE; congr 2; funext i; fin_cases i <;> rfl) | (unfold U3.ltE L.ltE; congr 3; funext i; fin_cases i <;> rfl)
+theorem U3_gtE_eq_loop (a b : Fin (4) → α) : U3.gtE a b = L.gtE (n := 3) a b := by
+  first | rfl | (unfold U3.gtE L.gtE; congr 2; funext i; fin_cases i <;> rfl) | (unfold U3.gtE L.gtE; congr 3; funext i; fin_cases i <;> rfl)
+theorem U3_leE_eq_loop (a b : Fin (4) → α) : U3.leE a b = L.leE (n := 3) a b := by
+  first | rfl | (unfold U3.leE L.leE; congr 2; funext i; fin_cases i <;> rfl) | (unfold U3.leE L.leE; congr 3; funext i; fin_cases i <;> rfl)
+theorem U3_geE_eq_loop (a b : Fin (4) → α) : U3.geE a b = L.geE (n := 3) a b := by
+  first | rfl | (unfold U3.geE L.geE; congr 2; funext i; fin_cases i <;> rfl) | (unfold U3.geE L.geE; congr 3; funext i; fin_cases i <;> rfl)
+theorem U3_eqS_eq_loop (a : Fin (4) → α) (c : α) : U3.eqS a c = L.eqS (n := 3) a c := by
+  first | rfl | (unfold U3.eqS L.eqS; congr 2; funext i; fin_cases i <;> rfl) | (unfold U3.eqS L.eqS; congr 3; funext i; fin_cases i <;> rfl)
+theorem U3_neS_eq_loop (a : Fin (4) → α) (c : α) : U3.neS a c = L.neS (n := 3) a c := by
+  first | rfl | (unfold U3.neS L.neS; congr 2; funext i; fin_cases i <;> rfl) | (unfold U3.neS L.neS; congr 3; funext i; fin_cases i <;> rfl)
+theorem U3_ltS_eq_loop (a : Fin (4) → α) (c : α) : U3.ltS a c = L.ltS (n := 3) a c := by
+  first | rfl | (unfold U3.ltS L.ltS; congr 2; funext i; fin_cases i <;> rfl) | (unfold U3.ltS L.ltS; congr 3; funext i; fin_cases i <;> rfl)
+theorem U3_gtS_eq_loop (a : Fin (4) → α) (c : α) : U3.gtS a c = L.gtS (n := 3) a c := by
+  first | rfl | (unfold U3.gtS L.gtS; congr 2; funext i; fin_cases i <;> rfl) | (unfold U3.gtS L.gtS; congr 3; funext i; fin_cases i <;> rfl)
+theorem U3_leS_eq_loop (a : Fin (4) → α) (c : α) : U3.leS a c = L.leS (n := 3) a c := by
+  first | rfl | (unfold U3.leS L.leS; congr 2; funext i; fin_cases i <;> rfl) | (unfold U3.leS L.leS; congr 3; funext i; fin_cases i <;> rfl)
+theorem U3_geS_eq_loop (a : Fin (4) → α) (c : α) : U3.geS a c = L.geS (n := 3) a c := by
+  first | rfl | (unfold U3.geS L.geS; congr 2; funext i; fin_cases i <;> rfl) | (unfold U3.geS L.geS; congr 3; funext i; fin_cases i <;> rfl)
+theorem U3_sne_eq_loop (c : α) (a : Fin (4) → α) : U3.sne c a = L.sne (n := 3) c a := by
+  first | rfl | (unfold U3.sne L.sne; congr 2; funext i; fin_cases i <;> rfl) | (unfold U3.sne L.sne; congr 3; funext i; fin_cases i <;> rfl)
+theorem U3_slt_eq_loop (c : α) (a : Fin (4) → α) : U3.slt c a = L.slt (n := 3) c a := by
+  first | rfl | (unfold U3.slt L.slt; congr 2; funext i; fin_cases i <;> rfl) | (unfold U3.slt L.slt; congr 3; funext i; fin_cases i <;> rfl)
+theorem U3_sgt_eq_loop (c : α) (a : Fin (4) → α) : U3.sgt c a = L.sgt (n := 3) c a := by
+  first | rfl | (unfold U3.sgt L.sgt; congr 2; funext i; fin_cases i <;> rfl) | (unfold U3.sgt L.sgt; congr 3; funext i; fin_cases i <;> rfl)
+theorem U3_sle_eq_loop (c : α) (a : Fin (4) → α) : U3.sle c a = L.sle (n := 3) c a := by
+  first | rfl | (unfold U3.sle L.sle; congr 2; funext i; fin_cases i <;> rfl) | (unfold U3.sle L.sle; congr 3; funext i; fin_cases i <;> rfl)
+theorem U3_sge_eq_loop (c : α) (a : Fin (4) → α) : U3.sge c a = L.sge (n := 3) c a := by
+  first | rfl | (unfold U3.sge L.sge; congr 2; funext i; fin_cases i <;> rfl) | (unfold U3.sge L.sge; congr 3; funext i; fin_cases i <;> rfl)
+theorem U3_constZero_eq_loop : (U3.constZero : Fin (4) → α) = L.constZero (n := 3) := by
+  funext i; fin_cases i <;> rfl
+theorem U3_constOne_eq_loop : (U3.constOne : Fin (4) → α) = L.constOne (n := 3) := by
+  funext i; fin_cases i <;> rfl
+theorem U3_constX_eq_loop (c : α) : U3.constX c = L.constX (n := 3) c := by
+  funext i; fin_cases i <;> rfl
+theorem U3_varXBase_eq_loop (c : α) : U3.varXBase c = L.varXBase (n := 3) c := by
+  funext i; fin_cases i <;> rfl
+theorem U3_ops2_eq_loop : (U3.ops2 : ADOps2 α 3) = L.ops2 :=
+  ADOps2.ext (funext fun a => U3_addSelf_eq_loop a) (funext fun a => U3_subSelf_eq_loop a) (funext fun a => U3_mulSelf_eq_loop a) (funext fun a => U3_divSelf_eq_loop a) (funext fun a => funext fun b => U3_eqE_eq_loop a b) (funext fun a => funext fun b => U3_neE_eq_loop a b) (funext fun a => funext fun b => U3_ltE_eq_loop a b) (funext fun a => funext fun b => U3_gtE_eq_loop a b) (funext fun a => funext fun b => U3_leE_eq_loop a b) (funext fun a => funext fun b => U3_geE_eq_loop a b) (funext fun a => funext fun c => U3_eqS_eq_loop a c) (funext fun a => funext fun c => U3_neS_eq_loop a c) (funext fun a => funext fun c => U3_ltS_eq_loop a c) (funext fun a => funext fun c => U3_gtS_eq_loop a c) (funext fun a => funext fun c => U3_leS_eq_loop a c) (funext fun a => funext fun c => U3_geS_eq_loop a c) (funext fun c => funext fun a => U3_sne_eq_loop c a) (funext fun c => funext fun a => U3_slt_eq_loop c a) (funext fun c => funext fun a => U3_sgt_eq_loop c a) (funext fun c => funext fun a => U3_sle_eq_loop c a) (funext fun c => funext fun a => U3_sge_eq_loop c a) (U3_constZero_eq_loop) (U3_constOne_eq_loop) (funext fun c => U3_constX_eq_loop c) (funext fun c => U3_varXBase_eq_loop c)
+
+/-! #### Evaluation4.hpp -/
+theorem U4_addSelf_eq_loop (a : Fin (5) → α) : U4.addSelf a = L.addSelf (n := 4) a := by
+  funext i; fin_cases i <;> rfl
+theorem U4_subSelf_eq_loop (a : Fin (5) → α) : U4.subSelf a = L.subSelf (n := 4) a := by
+  funext i; fin_cases i <;> rfl
+theorem U4_mulSelf_eq_loop (a : Fin (5) → α) : U4.mulSelf a = L.mulSelf (n := 4) a := by
+  funext i; fin_cases i <;> rfl
+theorem U4_divSelf_eq_loop (a : Fin (5) → α) : U4.divSelf a = L.divSelf (n := 4) a := by
+  funext i; fin_cases i <;> rfl
+theorem U4_eqE_eq_loop (a b : Fin (5) → α) : U4.eqE a b = L.eqE (n := 4) a b := by
+  first | rfl | (unfold U4.eqE L.eqE; congr 2; funext i; fin_cases i <;> rfl) | (unfold U4.eqE L.eqE; congr 3; funext i; fin_cases i <;> rfl)
+theorem U4_neE_eq_loop (a b : Fin (5) → α) : U4.neE a b = L.neE (n := 4) a b := by
+  first | rfl | (unfold U4.neE L.neE; congr 2; funext i; fin_cases i <;> rfl) | (unfold U4.neE L.neE; congr 3; funext i; fin_cases i <;> rfl)
+theorem U4_ltE_eq_loop (a b : Fin (5) → α) : U4.ltE a b = L.ltE (n := 4) a b := by
+  first | rfl | (unfold U4.ltE L.ltE; congr 2; funext i; fin_cases i <;> rfl) | (unfold U4.ltE L.ltE; congr 3; funext i; fin_cases i <;> rfl)
+theorem U4_gtE_eq_loop (a b : Fin (5) → α) : U4.gtE a b = L.gtE (n := 4) a b := by
+  first | rfl | (unfold U4.gtE L.gtE; congr 2; funext i; fin_cases i <;> rfl) | (unfold U4.gtE L.gtE; congr 3; funext i; fin_cases i <;> rfl)
+theorem U4_leE_eq_loop (a b : Fin (5) → α) : U4.leE a b = L.leE (n := 4) a b := by
+  first | rfl | (unfold U4.leE L.leE; congr 2; funext i; fin_cases i <;> rfl) | (unfold U4.leE L.leE; congr 3; funext i; fin_cases i <;> rfl)
+theorem U4_geE_eq_loop (a b : Fin (5) → α) : U4.geE a b = L.geE (n := 4) a b := by
+  first | rfl | (unfold U4.geE L.geE; congr 2; funext i; fin_cases i <;> rfl) | (unfold U4.geE L.geE; congr 3; funext i; fin_cases i <;> rfl)
+theorem U4_eqS_eq_loop (a : Fin (5) → α) (c : α) : U4.eqS a c = L.eqS (n := 4) a c := by
+  first | rfl | (unfold U4.eqS L.eqS; congr 2; funext i; fin_cases i <;> rfl) | (unfold U4.eqS L.eqS; congr 3; funext i; fin_cases i <;> rfl)
+theorem U4_neS_eq_loop (a : Fin (5) → α) (c : α) : U4.neS a c = L.neS (n := 4) a c := by
+  first | rfl | (unfold U4.neS L.neS; congr 2; funext i; fin_cases i <;> rfl) | (unfold U4.neS L.neS; congr 3; funext i; fin_cases i <;> rfl)
+theorem U4_ltS_eq_loop (a : Fin (5) → α) (c : α) : U4.ltS a c = L.ltS (n := 4) a c := by
+  first | rfl | (unfold U4.ltS L.ltS; congr 2; funext i; fin_cases i <;> rfl) | (unfold U4.ltS L.ltS; congr 3; funext i; fin_cases i <;> rfl)
+theorem U4_gtS_eq_loop (a : Fin (5) → α) (c : α) : U4.gtS a c = L.gtS (n := 4) a c := by
+  first | rfl | (unfold U4.gtS L.gtS; congr 2; funext i; fin_cases i <;> rfl) | (unfold U4.gtS L.gtS; congr 3; funext i; fin_cases i <;> rfl)
+theorem U4_leS_eq_loop (a : Fin (5) → α) (c : α) : U4.leS a c = L.leS (n := 4) a c := by
+  first | rfl | (unfold U4.leS L.leS; congr 2; funext i; fin_cases i <;> rfl) | (unfold U4.leS L.leS; congr 3; funext i; fin_cases i <;> rfl)
+theorem U4_geS_eq_loop (a : Fin (5) → α) (c : α) : U4.geS a c = L.geS (n := 4) a c := by
+  first | rfl | (unfold U4.geS L.geS; congr 2; funext i; fin_cases i <;> rfl) | (unfold U4.geS L.geS; congr 3; funext i; fin_cases i <;> rfl)
+theorem U4_sne_eq_loop (c : α) (a : Fin (5) → α) : U4.sne c a = L.sne (n := 4) c a := by
+  first | rfl | (unfold U4.sne L.sne; congr 2; funext i; fin_cases i <;> rfl) | (unfold U4.sne L.sne; congr 3; funext i; fin_cases i <;> rfl)
+theorem U4_slt_eq_loop (c : α) (a : Fin (5) → α) : U4.slt c a = L.slt (n := 4) c a := by
+  first | rfl | (unfold U4.slt L.slt; congr 2; funext i; fin_cases i <;> rfl) | (unfold U4.slt L.slt; congr 3; funext i; fin_cases i <;> rfl)
+theorem U4_sgt_eq_loop (c : α) (a : Fin (5) → α) : U4.sgt c a = L.sgt (n := 4) c a := by
+  first | rfl | (unfold U4.sgt L.sgt; congr 2; funext i; fin_cases i <;> rfl) | (unfold U4.sgt L.sgt; congr 3; funext i; fin_cases i <;> rfl)
+theorem U4_sle_eq_loop (c : α) (a : Fin (5) → α) : U4.sle c a = L.sle (n := 4) c a := by
+  first | rfl | (unfold U4.sle L.sle; congr 2; funext i; fin_cases i <;> rfl) | (unfold U4.sle L.sle; congr 3; funext i; fin_cases i <;> rfl)
+theorem U4_sge_eq_loop (c : α) (a : Fin (5) → α) : U4.sge c a = L.sge (n := 4) c a := by
+  first | rfl | (unfold U4.sge L.sge; congr 2; funext i; fin_cases i <;> rfl) | (unfold U4.sge L.sge; congr 3; funext i; fin_cases i <;> rfl)
+theorem U4_constZero_eq_loop : (U4.constZero : Fin (5) → α) = L.constZero (n := 4) := by
+  funext i; fin_cases i <;> rfl
+theorem U4_constOne_eq_loop : (U4.constOne : Fin (5) → α) = L.constOne (n := 4) := by
+  funext i; fin_cases i <;> rfl
+theorem U4_constX_eq_loop (c : α) : U4.constX c = L.constX (n := 4) c := by
+  funext i; fin_cases i <;> rfl
+theorem U4_varXBase_eq_loop (c : α) : U4.varXBase c = L.varXBase (n := 4) c := by
+  funext i; fin_cases i <;> rfl
+theorem U4_ops2_eq_loop : (U4.ops2 : ADOps2 α 4) = L.ops2 :=
+  ADOps2.ext (funext fun a => U4_addSelf_eq_loop a) (funext fun a => U4_subSelf_eq_loop a) (funext fun a => U4_mulSelf_eq_loop a) (funext fun a => U4_divSelf_eq_loop a) (funext fun a => funext fun b => U4_eqE_eq_loop a b) (funext fun a => funext fun b => U4_neE_eq_loop a b) (funext fun a => funext fun b => U4_ltE_eq_loop a b) (funext fun a => funext fun b => U4_gtE_eq_loop a b) (funext fun a => funext fun b => U4_leE_eq_loop a b) (funext fun a => funext fun b => U4_geE_eq_loop a b) (funext fun a => funext fun c => U4_eqS_eq_loop a c) (funext fun a => funext fun c => U4_neS_eq_loop a c) (funext fun a => funext fun c => U4_ltS_eq_loop a c) (funext fun a => funext fun c => U4_gtS_eq_loop a c) (funext fun a => funext fun c => U4_leS_eq_loop a c) (funext fun a => funext fun c => U4_geS_eq_loop a c) (funext fun c => funext fun a => U4_sne_eq_loop c a) (funext fun c => funext fun a => U4_slt_eq_loop c a) (funext fun c => funext fun a => U4_sgt_eq_loop c a) (funext fun c => funext fun a => U4_sle_eq_loop c a) (funext fun c => funext fun a => U4_sge_eq_loop c a) (U4_constZero_eq_loop) (U4_constOne_eq_loop) (funext fun c => U4_constX_eq_loop c) (funext fun c => U4_varXBase_eq_loop c)
+
+/-! #### Evaluation5.hpp -/
+theorem U5_addSelf_eq_loop (a : Fin (6) → α) : U5.addSelf a = L.addSelf (n := 5) a := by
+  funext i; fin_cases i <;> rfl
+theorem U5_subSelf_eq_loop (a : Fin (6) → α) : U5.subSelf a = L.subSelf (n := 5) a := by
+  funext i; fin_cases i <;> rfl
+theorem U5_mulSelf_eq_loop (a : Fin (6) → α) : U5.mulSelf a = L.mulSelf (n := 5) a := by
+  funext i; fin_cases i <;> rfl
+theorem U5_divSelf_eq_loop (a : Fin (6) → α) : U5.divSelf a = L.divSelf (n := 5) a := by
+  funext i; fin_cases i <;> rfl
+theorem U5_eqE_eq_loop (a b : Fin (6) → α) : U5.eqE a b = L.eqE (n := 5) a b := by
+  first | rfl | (unfold U5.eqE L.eqE; congr 2; funext i; fin_cases i <;> rfl) | (unfold U5.eqE L.eqE; congr 3; funext i; fin_cases i <;> rfl)
+theorem U5_neE_eq_loop (a b : Fin (6) → α) : U5.neE a b = L.neE (n := 5) a b := by
+  first | rfl | (unfold U5.neE L.neE; congr 2; funext i; fin_cases i <;> rfl) | (unfold U5.neE L.neE; congr 3; funext i; fin_cases i <;> rfl)
+theorem U5_ltE_eq_loop (a b : Fin (6) → α) : U5.ltE a b = L.ltE (n := 5) a b := by
+  first | rfl | (unfold U5.ltE L.ltE; congr 2; funext i; fin_cases i <;> rfl) | (unfold U5.ltE L.ltE; congr 3; funext i; fin_cases i <;> rfl)
+theorem U5_gtE_eq_loop (a b : Fin (6) → α) : U5.gtE a b = L.gtE (n := 5) a b := by
+  first | rfl | (unfold U5.gtE L.gtE; congr 2; funext i; fin_cases i <;> rfl) | (unfold U5.gtE L.gtE; congr 3; funext i; fin_cases i <;> rfl)
+theorem U5_leE_eq_loop (a b : Fin (6) → α) : U5.leE a b = L.leE (n := 5) a b := by
+  first | rfl | (unfold U5.leE L.leE; congr 2; funext i; fin_cases i <;> rfl) | (unfold U5.leE L.leE; congr 3; funext i; fin_cases i <;> rfl)
+theorem U5_geE_eq_loop (a b : Fin (6) → α) : U5.geE a b = L.geE (n := 5) a b := by
+  first | rfl | (unfold U5.geE L.geE; congr 2; funext i; fin_cases i <;> rfl) | (unfold U5.geE L.geE; congr 3; funext i; fin_cases i <;> rfl)
+theorem U5_eqS_eq_loop (a : Fin (6) → α) (c : α) : U5.eqS a c = L.eqS (n := 5) a c := by
+  first | rfl | (unfold U5.eqS L.eqS; congr 2; funext i; fin_cases i <;> rfl) | (unfold U5.eqS L.eqS; congr 3; funext i; fin_cases i <;> rfl)
+theorem U5_neS_eq_loop (a : Fin (6) → α) (c : α) : U5.neS a c = L.neS (n := 5) a c := by
+  first | rfl | (unfold U5.neS L.neS; congr 2; funext i; fin_cases i <;> rfl) | (unfold U5.neS L.neS; congr 3; funext i; fin_cases i <;> rfl)
+theorem U5_ltS_eq_loop (a : Fin (6) → α) (c : α) : U5.ltS a c = L.ltS (n := 5) a c := by
+  first | rfl | (unfold U5.ltS L.ltS; congr 2; funext i; fin_cases i <;> rfl) | (unfold U5.ltS L.ltS; congr 3; funext i; fin_cases i <;> rfl)
+theorem U5_gtS_eq_loop (a : Fin (6) → α) (c : α) : U5.gtS a c = L.gtS (n := 5) a c := by
+  first | rfl | (unfold U5.gtS L.gtS; congr 2; funext i; fin_cases i <;> rfl) | (unfold U5.gtS L.gtS; congr 3; funext i; fin_cases i <;> rfl)
+theorem U5_leS_eq_loop (a : Fin (6) → α) (c : α) : U5.leS a c = L.leS (n := 5) a c := by
+  first | rfl | (unfold U5.leS L.leS; congr 2; funext i; fin_cases i <;> rfl) | (unfold U5.leS L.leS; congr 3; funext i; fin_cases i <;> rfl)
+theorem U5_geS_eq_loop (a : Fin (6) → α) (c : α) : U5.geS a c = L.geS (n := 5) a c := by
+  first | rfl | (unfold U5.geS L.geS; congr 2; funext i; fin_cases i <;> rfl) | (unfold U5.geS L.geS; congr 3; funext i; fin_cases i <;> rfl)
+theorem U5_sne_eq_loop (c : α) (a : Fin (6) → α) : U5.sne c a = L.sne (n := 5) c a := by
+  first | rfl | (unfold U5.sne L.sne; congr 2; funext i; fin_cases i <;> rfl) | (unfold U5.sne L.sne; congr 3; funext i; fin_cases i <;> rfl)
+theorem U5_slt_eq_loop (c : α) (a : Fin (6) → α) : U5.slt c a = L.slt (n := 5) c a := by
+  first | rfl | (unfold U5.slt L.slt; congr 2; funext i; fin_cases i <;> rfl) | (unfold U5.slt L.slt; congr 3; funext i; fin_cases i <;> rfl)
+theorem U5_sgt_eq_loop (c : α) (a : Fin (6) → α) : U5.sgt c a = L.sgt (n := 5) c a := by
+  first | rfl | (unfold U5.sgt L.sgt; congr 2; funext i; fin_cases i <;> rfl) | (unfold U5.sgt L.sgt; congr 3; funext i; fin_cases i <;> rfl)
+theorem U5_sle_eq_loop (c : α) (a : Fin (6) → α) : U5.sle c a = L.sle (n := 5) c a := by
+  first | rfl | (unfold U5.sle L.sle; congr 2; funext i; fin_cases i <;> rfl) | (unfold U5.sle L.sle; congr 3; funext i; fin_cases i <;> rfl)
+theorem U5_sge_eq_loop (c : α) (a : Fin (6) → α) : U5.sge c a = L.sge (n := 5) c a := by
+  first | rfl | (unfold U5.sge L.sge; congr 2; funext i; fin_cases i <;> rfl) | (unfold U5.sge L.sge; congr 3; funext i; fin_cases i <;> rfl)
+theorem U5_constZero_eq_loop : (U5.constZero : Fin (6) → α) = L.constZero (n := 5) := by
+  funext i; fin_cases i <;> rfl
+theorem U5_constOne_eq_loop : (U5.constOne : Fin (6) → α) = L.constOne (n := 5) := by
+  funext i; fin_cases i <;> rfl
+theorem U5_constX_eq_loop (c : α) : U5.constX c = L.constX (n := 5) c := by
+  funext i; fin_cases i <;> rfl
+theorem U5_varXBase_eq_loop (c : α) : U5.varXBase c = L.varXBase (n := 5) c := by
+  funext i; fin_cases i <;> rfl
+theorem U5_ops2_eq_loop : (U5.ops2 : ADOps2 α 5) = L.ops2 :=
+  ADOps2.ext (funext fun a => U5_addSelf_eq_loop a) (funext fun a => U5_subSelf_eq_loop a) (funext fun a => U5_mulSelf_eq_loop a) (funext fun a => U5_divSelf_eq_loop a) (funext fun a => funext fun b => U5_eqE_eq_loop a b) (funext fun a => funext fun b => U5_neE_eq_loop a b) (funext fun a => funext fun b => U5_ltE_eq_loop a b) (funext fun a => funext fun b => U5_gtE_eq_loop a b) (funext fun a => funext fun b => U5_leE_eq_loop a b) (funext fun a => funext fun b => U5_geE_eq_loop a b) (funext fun a => funext fun c => U5_eqS_eq_loop a c) (funext fun a => funext fun c => U5_neS_eq_loop a c) (funext fun a => funext fun c => U5_ltS_eq_loop a c) (funext fun a => funext fun c => U5_gtS_eq_loop a c) (funext fun a => funext fun c => U5_leS_eq_loop a c) (funext fun a => funext fun c => U5_geS_eq_loop a c) (funext fun c => funext fun a => U5_sne_eq_loop c a) (funext fun c => funext fun a => U5_slt_eq_loop c a) (funext fun c => funext fun a => U5_sgt_eq_loop c a) (funext fun c => funext fun a => U5_sle_eq_loop c a) (funext fun c => funext fun a => U5_sge_eq_loop c a) (U5_constZero_eq_loop) (U5_constOne_eq_loop) (funext fun c => U5_constX_eq_loop c) (funext fun c => U5_varXBase_eq_loop c)
+
+/-! #### Evaluation6.hpp -/
+theorem U6_addSelf_eq_loop (a : Fin (7) → α) : U6.addSelf a = L.addSelf (n := 6) a := by
+  funext i; fin_cases i <;> rfl
+theorem U6_subSelf_eq_loop (a : Fin (7) → α) : U6.subSelf a = L.subSelf (n := 6) a := by
+  funext i; fin_cases i <;> rfl
+theorem U6_mulSelf_eq_loop (a : Fin (7) → α) : U6.mulSelf a = L.mulSelf (n := 6) a := by
+  funext i; fin_cases i <;> rfl
+theorem U6_divSelf_eq_loop (a : Fin (7) → α) : U6.divSelf a = L.divSelf (n := 6) a := by
+  funext i; fin_cases i <;> rfl
+theorem U6_eqE_eq_loop (a b : Fin (7) → α) : U6.eqE a b = L.eqE (n := 6) a b := by
+  first | rfl | (unfold U6.eqE L.eqE; congr 2; funext i; fin_cases i <;> rfl) | (unfold U6.eqE L.eqE; congr 3; funext i; fin_cases i <;> rfl)
+theorem U6_neE_eq_loop (a b : Fin (7) → α) : U6.neE a b = L.neE (n := 6) a b := by
+  first | rfl | (unfold U6.neE L.neE; congr 2; funext i; fin_cases i <;> rfl) | (unfold U6.neE L.neE; congr 3; funext i; fin_cases i <;> rfl)
+theorem U6_ltE_eq_loop (a b : Fin (7) → α) : U6.ltE a b = L.ltE (n := 6) a b := by
+  first | rfl | (unfold U6.ltE L.ltE; congr 2; funext i; fin_cases i <;> rfl) | (unfold U6.ltE L.ltE; congr 3; funext i; fin_cases i <;> rfl)
+theorem U6_gtE_eq_loop (a b : Fin (7) → α) : U6.gtE a b = L.gtE (n := 6) a b := by
+  first | rfl | (unfold U6.gtE L.gtE; congr 2; funext i; fin_cases i <;> rfl) | (unfold U6.gtE L.gtE; congr 3; funext i; fin_cases i <;> rfl)
+theorem U6_leE_eq_loop (a b : Fin (7) → α) : U6.leE a b = L.leE (n := 6) a b := by
+  first | rfl | (unfold U6.leE L.leE; congr 2; funext i; fin_cases i <;> rfl) | (unfold U6.leE L.leE; congr 3; funext i; fin_cases i <;> rfl)
+theorem U6_geE_eq_loop (a b : Fin (7) → α) : U6.geE a b = L.geE (n := 6) a b := by
+  first | rfl | (unfold U6.geE L.geE; congr 2; funext i; fin_cases i <;> rfl) | (unfold U6.geE L.geE; congr 3; funext i; fin_cases i <;> rfl)
+theorem U6_eqS_eq_loop (a : Fin (7) → α) (c : α) : U6.eqS a c = L.eqS (n := 6) a c := by
+  first | rfl | (unfold U6.eqS L.eqS; congr 2; funext i; fin_cases i <;> rfl) | (unfold U6.eqS L.eqS; congr 3; funext i; fin_cases i <;> rfl)
+theorem U6_neS_eq_loop (a : Fin (7) → α) (c : α) : U6.neS a c = L.neS (n := 6) a c := by
+  first | rfl | (unfold U6.neS L.neS; congr 2; funext i; fin_cases i <;> rfl) | (unfold U6.neS L.neS; congr 3; funext i; fin_cases i <;> rfl)
+theorem U6_ltS_eq_loop (a : Fin (7) → α) (c : α) : U6.ltS a c = L.ltS (n := 6) a c := by
+  first | rfl | (unfold U6.ltS L.ltS; congr 2; funext i; fin_cases i <;> rfl) | (unfold U6.ltS L.ltS; congr 3; funext i; fin_cases i <;> rfl)
+theorem U6_gtS_eq_loop (a : Fin (7) → α) (c : α) : U6.gtS a c = L.gtS (n := 6) a c := by
+  first | rfl | (unfold U6.gtS L.gtS; congr 2; funext i; fin_cases i <;> rfl) | (unfold U6.gtS L.gtS; congr 3; funext i; fin_cases i <;> rfl)
+theorem U6_leS_eq_loop (a : Fin (7) → α) (c : α) : U6.leS a c = L.leS (n := 6) a c := by
+  first | rfl | (unfold U6.leS L.leS; congr 2; funext i; fin_cases i <;> rfl) | (unfold U6.leS L.leS; congr 3; funext i; fin_cases i <;> rfl)
+theorem U6_geS_eq_loop (a : Fin (7) → α) (c : α) : U6.geS a c = L.geS (n := 6) a c := by
+  first | rfl | (unfold U6.geS L.geS; congr 2; funext i; fin_cases i <;> rfl) | (unfold U6.geS L.geS; congr 3; funext i; fin_cases i <;> rfl)
+theorem U6_sne_eq_loop (c : α) (a : Fin (7) → α) : U6.sne c a = L.sne (n := 6) c a := by
+  first | rfl | (unfold U6.sne L.sne; congr 2; funext i; fin_cases i <;> rfl) | (unfold U6.sne L.sne; congr 3; funext i; fin_cases i <;> rfl)
+theorem U6_slt_eq_loop (c : α) (a : Fin (7) → α) : U6.slt c a = L.slt (n := 6) c a := by
+  first | rfl | (unfold U6.slt L.slt; congr 2; funext i; fin_cases i <;> rfl) | (unfold U6.slt L.slt; congr 3; funext i; fin_cases i <;> rfl)
+theorem U6_sgt_eq_loop (c : α) (a : Fin (7) → α) : U6.sgt c a = L.sgt (n := 6) c a := by
+  first | rfl | (unfold U6.sgt L.sgt; congr 2; funext i; fin_cases i <;> rfl) | (unfold U6.sgt L.sgt; congr 3; funext i; fin_cases i <;> rfl)
+theorem U6_sle_eq_loop (c : α) (a : Fin (7) → α) : U6.sle c a = L.sle (n := 6) c a := by
+  first | rfl | (unfold U6.sle L.sle; congr 2; funext i; fin_cases i <;> rfl) | (unfold U6.sle L.sle; congr 3; funext i; fin_cases i <;> rfl)
+theorem U6_sge_eq_loop (c : α) (a : Fin (7) → α) : U6.sge c a = L.sge (n := 6) c a := by
+  first | rfl | (unfold U6.sge L.sge; congr 2; funext i; fin_cases i <;> rfl) | (unfold U6.sge L.sge; congr 3; funext i; fin_cases i <;> rfl)
+theorem U6_constZero_eq_loop : (U6.constZero : Fin (7) → α) = L.constZero (n := 6) := by
+  funext i; fin_cases i <;> rfl
+theorem U6_constOne_eq_loop : (U6.constOne : Fin (7) → α) = L.constOne (n := 6) := by
+  funext i; fin_cases i <;> rfl
+theorem U6_constX_eq_loop (c : α) : U6.constX c = L.constX (n := 6) c := by
+  funext i; fin_cases i <;> rfl
+theorem U6_varXBase_eq_loop (c : α) : U6.varXBase c = L.varXBase (n := 6) c := by
+  funext i; fin_cases i <;> rfl
+theorem U6_ops2_eq_loop : (U6.ops2 : ADOps2 α 6) = L.ops2 :=
+  ADOps2.ext (funext fun a => U6_addSelf_eq_loop a) (funext fun a => U6_subSelf_eq_loop a) (funext fun a => U6_mulSelf_eq_loop a) (funext fun a => U6_divSelf_eq_loop a) (funext fun a => funext fun b => U6_eqE_eq_loop a b) (funext fun a => funext fun b => U6_neE_eq_loop a b) (funext fun a => funext fun b => U6_ltE_eq_loop a b) (funext fun a => funext fun b => U6_gtE_eq_loop a b) (funext fun a => funext fun b => U6_leE_eq_loop a b) (funext fun a => funext fun b => U6_geE_eq_loop a b) (funext fun a => funext fun c => U6_eqS_eq_loop a c) (funext fun a => funext fun c => U6_neS_eq_loop a c) (funext fun a => funext fun c => U6_ltS_eq_loop a c) (funext fun a => funext fun c => U6_gtS_eq_loop a c) (funext fun a => funext fun c => U6_leS_eq_loop a c) (funext fun a => funext fun c => U6_geS_eq_loop a c) (funext fun c => funext fun a => U6_sne_eq_loop c a) (funext fun c => funext fun a => U6_slt_eq_loop c a) (funext fun c => funext fun a => U6_sgt_eq_loop c a) (funext fun c => funext fun a => U6_sle_eq_loop c a) (funext fun c => funext fun a => U6_sge_eq_loop c a) (U6_constZero_eq_loop) (U6_constOne_eq_loop) (funext fun c => U6_constX_eq_loop c) (funext fun c => U6_varXBase_eq_loop c)
+
+/-! #### Evaluation7.hpp -/
+theorem U7_addSelf_eq_loop (a : Fin (8) → α) : U7.addSelf a = L.addSelf (n := 7) a := by
+  funext i; fin_cases i <;> rfl
+theorem U7_subSelf_eq_loop (a : Fin (8) → α) : U7.subSelf a = L.subSelf (n := 7) a := by
+  funext i; fin_cases i <;> rfl
+theorem U7_mulSelf_eq_loop (a : Fin (8) → α) : U7.mulSelf a = L.mulSelf (n := 7) a := by
+  funext i; fin_cases i <;> rfl
+theorem U7_divSelf_eq_loop (a : Fin (8) → α) : U7.divSelf a = L.divSelf (n := 7) a := by
+  funext i; fin_cases i <;> rfl
+theorem U7_eqE_eq_loop (a b : Fin (8) → α) : U7.eqE a b = L.eqE (n := 7) a b := by
+  first | rfl | (unfold U7.eqE L.eqE; congr 2; funext i; fin_cases i <;> rfl) | (unfold U7.eqE L.eqE; congr 3; funext i; fin_cases i <;> rfl)
+theorem U7_neE_eq_loop (a b : Fin (8) → α) : U7.neE a b = L.neE (n := 7) a b := by
+  first | rfl | (unfold U7.neE L.neE; congr 2; funext i; fin_cases i <;> rfl) | (unfold U7.neE L.neE; congr 3; funext i; fin_cases i <;> rfl)
+theorem U7_ltE_eq_loop (a b : Fin (8) → α) : U7.ltE a b = L.ltE (n := 7) a b := by
+  first | rfl | (unfold U7.ltE L.ltE; congr 2; funext i; fin_cases i <;> rfl) | (unfold U7.ltE L.ltE; congr 3; funext i; fin_cases i <;> rfl)
+theorem U7_gtE_eq_loop (a b : Fin (8) → α) : U7.gtE a b = L.gtE (n := 7) a b := by
+  first | rfl | (unfold U7.gtE L.gtE; congr 2; funext i; fin_cases i <;> rfl) | (unfold U7.gtE L.gtE; congr 3; funext i; fin_cases i <;> rfl)
+theorem U7_leE_eq_loop (a b : Fin (8) → α) : U7.leE a b = L.leE (n := 7) a b := by
+  first | rfl | (unfold U7.leE L.leE; congr 2; funext i; fin_cases i <;> rfl) | (unfold U7.leE L.leE; congr 3; funext i; fin_cases i <;> rfl)
+theorem U7_geE_eq_loop (a b : Fin (8) → α) : U7.geE a b = L.geE (n := 7) a b := by
+  first | rfl | (unfold U7.geE L.geE; congr 2; funext i; fin_cases i <;> rfl) | (unfold U7.geE L.geE; congr 3; funext i; fin_cases i <;> rfl)
+theorem U7_eqS_eq_loop (a : Fin (8) → α) (c : α) : U7.eqS a c = L.eqS (n := 7) a c := by
+  first | rfl | (unfold U7.eqS L.eqS; congr 2; funext i; fin_cases i <;> rfl) | (unfold U7.eqS L.eqS; congr 3; funext i; fin_cases i <;> rfl)
+theorem U7_neS_eq_loop (a : Fin (8) → α) (c : α) : U7.neS a c = L.neS (n := 7) a c := by
+  first | rfl | (unfold U7.neS L.neS; congr 2; funext i; fin_cases i <;> rfl) | (unfold U7.neS L.neS; congr 3; funext i; fin_cases i <;> rfl)
+theorem U7_ltS_eq_loop (a : Fin (8) → α) (c : α) : U7.ltS a c = L.ltS (n := 7) a c := by
+  first | rfl | (unfold U7.ltS L.ltS; congr 2; funext i; fin_cases i <;> rfl) | (unfold U7.ltS L.ltS; congr 3; funext i; fin_cases i <;> rfl)
+theorem U7_gtS_eq_loop (a : Fin (8) → α) (c : α) : U7.gtS a c = L.gtS (n := 7) a c := by
+  first | rfl | (unfold U7.gtS L.gtS; congr 2; funext i; fin_cases i <;> rfl) | (unfold U7.gtS L.gtS; congr 3; funext i; fin_cases i <;> rfl)
+theorem U7_leS_eq_loop (a : Fin (8) → α) (c : α) : U7.leS a c = L.leS (n := 7) a c := by
+  first | rfl | (unfold U7.leS L.leS; congr 2; funext i; fin_cases i <;> rfl) | (unfold U7.leS L.leS; congr 3; funext i; fin_cases i <;> rfl)
+theorem U7_geS_eq_loop (a : Fin (8) → α) (c : α) : U7.geS a c = L.geS (n := 7) a c := by
+  first | rfl | (unfold U7.geS L.geS; congr 2; funext i; fin_cases i <;> rfl) | (unfold U7.geS L.geS; congr 3; funext i; fin_cases i <;> rfl)
+theorem U7_sne_eq_loop (c : α) (a : Fin (8) → α) : U7.sne c a = L.sne (n := 7) c a := by
+  first | rfl | (unfold U7.sne L.sne; congr 2; funext i; fin_cases i <;> rfl) | (unfold U7.sne L.sne; congr 3; funext i; fin_cases i <;> rfl)
+theorem U7_slt_eq_loop (c : α) (a : Fin (8) → α) : U7.slt c a = L.slt (n := 7) c a := by
+  first | rfl | (unfold U7.slt L.slt; congr 2; funext i; fin_cases i <;> rfl) | (unfold U7.slt L.slt; congr 3; funext i; fin_cases i <;> rfl)
+theorem U7_sgt_eq_loop (c : α) (a : Fin (8) → α) : U7.sgt c a = L.sgt (n := 7) c a := by
+  first | rfl | (unfold U7.sgt L.sgt; congr 2; funext i; fin_cases i <;> rfl) | (unfold U7.sgt L.sgt; congr 3; funext i; fin_cases i <;> rfl)
+theorem U7_sle_eq_loop (c : α) (a : Fin (8) → α) : U7.sle c a = L.sle (n := 7) c a := by
+  first | rfl | (unfold U7.sle L.sle; congr 2; funext i; fin_cases i <;> rfl) | (unfold U7.sle L.sle; congr 3; funext i; fin_cases i <;> rfl)
+theorem U7_sge_eq_loop (c : α) (a : Fin (8) → α) : U7.sge c a = L.sge (n := 7) c a := by
+  first | rfl | (unfold U7.sge L.sge; congr 2; funext i; fin_cases i <;> rfl) | (unfold U7.sge L.sge; congr 3; funext i; fin_cases i <;> rfl)
+theorem U7_constZero_eq_loop : (U7.constZero : Fin (8) → α) = L.constZero (n := 7) := by
+  funext i; fin_cases i <;> rfl
+theorem U7_constOne_eq_loop : (U7.constOne : Fin (8) → α) = L.constOne (n := 7) := by
+  funext i; fin_cases i <;> rfl
+theorem U7_constX_eq_loop (c : α) : U7.constX c = L.constX (n := 7) c := by
+  funext i; fin_cases i <;> rfl
+theorem U7_varXBase_eq_loop (c : α) : U7.varXBase c = L.varXBase (n := 7) c := by
+  funext i; fin_cases i <;> rfl
+theorem U7_ops2_eq_loop : (U7.ops2 : ADOps2 α 7) = L.ops2 :=
+  ADOps2.ext (funext fun a => U7_addSelf_eq_loop a) (funext fun a => U7_subSelf_eq_loop a) (funext fun a => U7_mulSelf_eq_loop a) (funext fun a => U7_divSelf_eq_loop a) (funext fun a => funext fun b => U7_eqE_eq_loop a b) (funext fun a => funext fun b => U7_neE_eq_loop a b) (funext fun a => funext fun b => U7_ltE_eq_loop a b) (funext fun a => funext fun b => U7_gtE_eq_loop a b) (funext fun a => funext fun b => U7_leE_eq_loop a b) (funext fun a => funext fun b => U7_geE_eq_loop a b) (funext fun a => funext fun c => U7_eqS_eq_loop a c) (funext fun a => funext fun c => U7_neS_eq_loop a c) (funext fun a => funext fun c => U7_ltS_eq_loop a c) (funext fun a => funext fun c => U7_gtS_eq_loop a c) (funext fun a => funext fun c => U7_leS_eq_loop a c) (funext fun a => funext fun c => U7_geS_eq_loop a c) (funext fun c => funext fun a => U7_sne_eq_loop c a) (funext fun c => funext fun a => U7_slt_eq_loop c a) (funext fun c => funext fun a => U7_sgt_eq_loop c a) (funext fun c => funext fun a => U7_sle_eq_loop c a) (funext fun c => funext fun a => U7_sge_eq_loop c a) (U7_constZero_eq_loop) (U7_constOne_eq_loop) (funext fun c => U7_constX_eq_loop c) (funext fun c => U7_varXBase_eq_loop c)
+
+/-! #### Evaluation8.hpp -/
+theorem U8_addSelf_eq_loop (a : Fin (9) → α) : U8.addSelf a = L.addSelf (n := 8) a := by
+  funext i; fin_cases i <;> rfl
+theorem U8_subSelf_eq_loop (a : Fin (9) → α) : U8.subSelf a = L.subSelf (n := 8) a := by
+  funext i; fin_cases i <;> rfl
+theorem U8_mulSelf_eq_loop (a : Fin (9) → α) : U8.mulSelf a = L.mulSelf (n := 8) a := by
+  funext i; fin_cases i <;> rfl
+theorem U8_divSelf_eq_loop (a : Fin (9) → α) : U8.divSelf a = L.divSelf (n := 8) a := by
+  funext i; fin_cases i <;> rfl
+theorem U8_eqE_eq_loop (a b : Fin (9) → α) : U8.eqE a b = L.eqE (n := 8) a b := by
+  first | rfl | (unfold U8.eqE L.eqE; congr 2; funext i; fin_cases i <;> rfl) | (unfold U8.eqE L.eqE; congr 3; funext i; fin_cases i <;> rfl)
+theorem U8_neE_eq_loop (a b : Fin (9) → α) : U8.neE a b = L.neE (n := 8) a b := by
+  first | rfl | (unfold U8.neE L.neE; congr 2; funext i; fin_cases i <;> rfl) | (unfold U8.neE L.neE; congr 3; funext i; fin_cases i <;> rfl)
+theorem U8_ltE_eq_loop (a b : Fin (9) → α) : U8.ltE a b = L.ltE (n := 8) a b := by
+  first | rfl | (unfold U8.ltE L.ltE; congr 2; funext i; fin_cases i <;> rfl) | (unfold U8.ltE L.ltE; congr 3; funext i; fin_cases i <;> rfl)
+theorem U8_gtE_eq_loop (a b : Fin (9) → α) : U8.gtE a b = L.gtE (n := 8) a b := by
+  first | rfl | (unfold U8.gtE L.gtE; congr 2; funext i; fin_cases i <;> rfl) | (unfold U8.gtE L.gtE; congr 3; funext i; fin_cases i <;> rfl)
+theorem U8_leE_eq_loop (a b : Fin (9) → α) : U8.leE a b = L.leE (n := 8) a b := by
+  first | rfl | (unfold U8.leE L.leE; congr 2; funext i; fin_cases i <;> rfl) | (unfold U8.leE L.leE; congr 3; funext i; fin_cases i <;> rfl)
+theorem U8_geE_eq_loop (a b : Fin (9) → α) : U8.geE a b = L.geE (n := 8) a b := by
+  first | rfl | (unfold U8.geE L.geE; congr 2; funext i; fin_cases i <;> rfl) | (unfold U8.geE L.geE; congr 3; funext i; fin_cases i <;> rfl)
+theorem U8_eqS_eq_loop (a : Fin (9) → α) (c : α) : U8.eqS a c = L.eqS (n := 8) a c := by
+  first | rfl | (unfold U8.eqS L.eqS; congr 2; funext i; fin_cases i <;> rfl) | (unfold U8.eqS L.eqS; congr 3; funext i; fin_cases i <;> rfl)
+theorem U8_neS_eq_loop (a : Fin (9) → α) (c : α) : U8.neS a c = L.neS (n := 8) a c := by
+  first | rfl | (unfold U8.neS L.neS; congr 2; funext i; fin_cases i <;> rfl) | (unfold U8.neS L.neS; congr 3; funext i; fin_cases i <;> rfl)
+theorem U8_ltS_eq_loop (a : Fin (9) → α) (c : α) : U8.ltS a c = L.ltS (n := 8) a c := by
+  first | rfl | (unfold U8.ltS L.ltS; congr 2; funext i; fin_cases i <;> rfl) | (unfold U8.ltS L.ltS; congr 3; funext i; fin_cases i <;> rfl)
+theorem U8_gtS_eq_loop (a : Fin (9) → α) (c : α) : U8.gtS a c = L.gtS (n := 8) a c := by
+  first | rfl | (unfold U8.gtS L.gtS; congr 2; funext i; fin_cases i <;> rfl) | (unfold U8.gtS L.gtS; congr 3; funext i; fin_cases i <;> rfl)
+theorem U8_leS_eq_loop (a : Fin (9) → α) (c : α) : U8.leS a c = L.leS (n := 8) a c := by
+  first | rfl | (unfold U8.leS L.leS; congr 2; funext i; fin_cases i <;> rfl) | (unfold U8.leS L.leS; congr 3; funext i; fin_cases i <;> rfl)
+theorem U8_geS_eq_loop (a : Fin (9) → α) (c : α) : U8.geS a c = L.geS (n := 8) a c := by
+  first | rfl | (unfold U8.geS L.geS; congr 2; funext i; fin_cases i <;> rfl) | (unfold U8.geS L.geS; congr 3; funext i; fin_cases i <;> rfl)
+theorem U8_sne_eq_loop (c : α) (a : Fin (9) → α) : U8.sne c a = L.sne (n := 8) c a := by
+  first | rfl | (unfold U8.sne L.sne; congr 2; funext i; fin_cases i <;> rfl) | (unfold U8.sne L.sne; congr 3; funext i; fin_cases i <;> rfl)
+theorem U8_slt_eq_loop (c : α) (a : Fin (9) → α) : U8.slt c a = L.slt (n := 8) c a := by
+  first | rfl | (unfold U8.slt L.slt; congr 2; funext i; fin_cases i <;> rfl) | (unfold U8.slt L.slt; congr 3; funext i; fin_cases i <;> rfl)
+theorem U8_sgt_eq_loop (c : α) (a : Fin (9) → α) : U8.sgt c a = L.sgt (n := 8) c a := by
+  first | rfl | (unfold U8.sgt L.sgt; congr 2; funext i; fin_cases i <;> rfl) | (unfold U8.sgt L.sgt; congr 3; funext i; fin_cases i <;> rfl)
+theorem U8_sle_eq_loop (c : α) (a : Fin (9) → α) : U8.sle c a = L.sle (n := 8) c a := by
+  first | rfl | (unfold U8.sle L.sle; congr 2; funext i; fin_cases i <;> rfl) | (unfold U8.sle L.sle; congr 3; funext i; fin_cases i <;> rfl)
+theorem U8_sge_eq_loop (c : α) (a : Fin (9) → α) : U8.sge c a = L.sge (n := 8) c a := by
+  first | rfl | (unfold U8.sge L.sge; congr 2; funext i; fin_cases i <;> rfl) | (unfold U8.sge L.sge; congr 3; funext i; fin_cases i <;> rfl)
+theorem U8_constZero_eq_loop : (U8.constZero : Fin (9) → α) = L.constZero (n := 8) := by
+  funext i; fin_cases i <;> rfl
+theorem U8_constOne_eq_loop : (U8.constOne : Fin (9) → α) = L.constOne (n := 8) := by
+  funext i; fin_cases i <;> rfl
+theorem U8_constX_eq_loop (c : α) : U8.constX c = L.constX (n := 8) c := by
+  funext i; fin_cases i <;> rfl
+theorem U8_varXBase_eq_loop (c : α) : U8.varXBase c = L.varXBase (n := 8) c := by
+  funext i; fin_cases i <;> rfl
+theorem U8_ops2_eq_loop : (U8.ops2 : ADOps2 α 8) = L.ops2 :=
+  ADOps2.ext (funext fun a => U8_addSelf_eq_loop a) (funext fun a => U8_subSelf_eq_loop a) (funext fun a => U8_mulSelf_eq_loop a) (funext fun a => U8_divSelf_eq_loop a) (funext fun a => funext fun b => U8_eqE_eq_loop a b) (funext fun a => funext fun b => U8_neE_eq_loop a b) (funext fun a => funext fun b => U8_ltE_eq_loop a b) (funext fun a => funext fun b => U8_gtE_eq_loop a b) (funext fun a => funext fun b => U8_leE_eq_loop a b) (funext fun a => funext fun b => U8_geE_eq_loop a b) (funext fun a => funext fun c => U8_eqS_eq_loop a c) (funext fun a => funext fun c => U8_neS_eq_loop a c) (funext fun a => funext fun c => U8_ltS_eq_loop a c) (funext fun a => funext fun c => U8_gtS_eq_loop a c) (funext fun a => funext fun c => U8_leS_eq_loop a c) (funext fun a => funext fun c => U8_geS_eq_loop a c) (funext fun c => funext fun a => U8_sne_eq_loop c a) (funext fun c => funext fun a => U8_slt_eq_loop c a) (funext fun c => funext fun a => U8_sgt_eq_loop c a) (funext fun c => funext fun a => U8_sle_eq_loop c a) (funext fun c => funext fun a => U8_sge_eq_loop c a) (U8_constZero_eq_loop) (U8_constOne_eq_loop) (funext fun c => U8_constX_eq_loop c) (funext fun c => U8_varXBase_eq_loop c)
+
+/-! #### Evaluation9.hpp -/
+theorem U9_addSelf_eq_loop (a : Fin (10) → α) : U9.addSelf a = L.addSelf (n := 9) a := by
+  funext i; fin_cases i <;> rfl
+theorem U9_subSelf_eq_loop (a : Fin (10) → α) : U9.subSelf a = L.subSelf (n := 9) a := by
+  funext i; fin_cases i <;> rfl
+theorem U9_mulSelf_eq_loop (a : Fin (10) → α) : U9.mulSelf a = L.mulSelf (n := 9) a := by
+  funext i; fin_cases i <;> rfl
+theorem U9_divSelf_eq_loop (a : Fin (10) → α) : U9.divSelf a = L.divSelf (n := 9) a := by
+  funext i; fin_cases i <;> rfl
+theorem U9_eqE_eq_loop (a b : Fin (10) → α) : U9.eqE a b = L.eqE (n := 9) a b := by
+  first | rfl | (unfold U9.eqE L.eqE; congr 2; funext i; fin_cases i <;> rfl) | (unfold U9.eqE L.eqE; congr 3; funext i; fin_cases i <;> rfl)
+theorem U9_neE_eq_loop (a b : Fin (10) → α) : U9.neE a b = L.neE (n := 9) a b := by
+  first | rfl | (unfold U9.neE L.neE; congr 2; funext i; fin_cases i <;> rfl) | (unfold U9.neE L.neE; congr 3; funext i; fin_cases i <;> rfl)
+theorem U9_ltE_eq_loop (a b : Fin (10) → α) : U9.ltE a b = L.ltE (n := 9) a b := by
+  first | rfl | (unfold U9.ltE L.ltE; congr 2; funext i; fin_cases i <;> rfl) | (unfold U9.ltE L.ltE; congr 3; funext i; fin_cases i <;> rfl)
+theorem U9_gtE_eq_loop (a b : Fin (10) → α) : U9.gtE a b = L.gtE (n := 9) a b := by
+  first | rfl | (unfold U9.gtE L.gtE; congr 2; funext i; fin_cases i <;> rfl) | (unfold U9.gtE L.gtE; congr 3; funext i; fin_cases i <;> rfl)
+theorem U9_leE_eq_loop (a b : Fin (10) → α) : U9.leE a b = L.leE (n := 9) a b := by
+  first | rfl | (unfold U9.leE L.leE; congr 2; funext i; fin_cases i <;> rfl) | (unfold U9.leE L.leE; congr 3; funext i; fin_cases i <;> rfl)
+theorem U9_geE_eq_loop (a b : Fin (10) → α) : U9.geE a b = L.geE (n := 9) a b := by
+  first | rfl | (unfold U9.geE L.geE; congr 2; funext i; fin_cases i <;> rfl) | (unfold U9.geE L.geE; congr 3; funext i; fin_cases i <;> rfl)
+theorem U9_eqS_eq_loop (a : Fin (10) → α) (c : α) : U9.eqS a c = L.eqS (n := 9) a c := by
+  first | rfl | (unfold U9.eqS L.eqS; congr 2; funext i; fin_cases i <;> rfl) | (unfold U9.eqS L.eqS; congr 3; funext i; fin_cases i <;> rfl)
+theorem U9_neS_eq_loop (a : Fin (10) → α) (c : α) : U9.neS a c = L.neS (n := 9) a c := by
+  first | rfl | (unfold U9.neS L.neS; congr 2; funext i; fin_cases i <;> rfl) | (unfold U9.neS L.neS; congr 3; funext i; fin_cases i <;> rfl)
+theorem U9_ltS_eq_loop (a : Fin (10) → α) (c : α) : U9.ltS a c = L.ltS (n := 9) a c := by
+  first | rfl | (unfold U9.ltS L.ltS; congr 2; funext i; fin_cases i <;> rfl) | (unfold U9.ltS L.ltS; congr 3; funext i; fin_cases i <;> rfl)
+theorem U9_gtS_eq_loop (a : Fin (10) → α) (c : α) : U9.gtS a c = L.gtS (n := 9) a c := by
+  first | rfl | (unfold U9.gtS L.gtS; congr 2; funext i; fin_cases i <;> rfl) | (unfold U9.gtS L.gtS; congr 3; funext i; fin_cases i <;> rfl)
+theorem U9_leS_eq_loop (a : Fin (10) → α) (c : α) : U9.leS a c = L.leS (n := 9) a c := by
+  first | rfl | (unfold U9.leS L.leS; congr 2; funext i; fin_cases i <;> rfl) | (unfold U9.leS L.leS; congr 3; funext i; fin_cases i <;> rfl)
+theorem U9_geS_eq_loop (a : Fin (10) → α) (c : α) : U9.geS a c = L.geS (n := 9) a c := by
+  first | rfl | (unfold U9.geS L.geS; congr 2; funext i; fin_cases i <;> rfl) | (unfold U9.geS L.geS; congr 3; funext i; fin_cases i <;> rfl)
+theorem U9_sne_eq_loop (c : α) (a : Fin (10) → α) : U9.sne c a = L.sne (n := 9) c a := by
+  first | rfl | (unfold U9.sne L.sne; congr 2; funext i; fin_cases i <;> rfl) | (unfold U9.sne L.sne; congr 3; funext i; fin_cases i <;> rfl)
+theorem U9_slt_eq_loop (c : α) (a : Fin (10) → α) : U9.slt c a = L.slt (n := 9) c a := by
+  first | rfl | (unfold U9.slt L.slt; congr 2; funext i; fin_cases i <;> rfl) | (unfold U9.slt L.slt; congr 3; funext i; fin_cases i <;> rfl)
+theorem U9_sgt_eq_loop (c : α) (a : Fin (10) → α) : U9.sgt c a = L.sgt (n := 9) c a := by
+  first | rfl | (unfold U9.sgt L.sgt; congr 2; funext i; fin_cases i <;> rfl) | (unfold U9.sgt L.sgt; congr 3; funext i; fin_cases i <;> rfl)
+theorem U9_sle_eq_loop (c : α) (a : Fin (10) → α) : U9.sle c a = L.sle (n := 9) c a := by
+  first | rfl | (unfold U9.sle L.sle; congr 2; funext i; fin_cases i <;> rfl) | (unfold U9.sle L.sle; congr 3; funext i; fin_cases i <;> rfl)
+theorem U9_sge_eq_loop (c : α) (a : Fin (10) → α) : U9.sge c a = L.sge (n := 9) c a := by
+  first | rfl | (unfold U9.sge L.sge; congr 2; funext i; fin_cases i <;> rfl) | (unfold U9.sge L.sge; congr 3; funext i; fin_cases i <;> rfl)
+theorem U9_constZero_eq_loop : (U9.constZero : Fin (10) → α) = L.constZero (n := 9) := by
+  funext i; fin_cases i <;> rfl
+theorem U9_constOne_eq_loop : (U9.constOne : Fin (10) → α) = L.constOne (n := 9) := by
+  funext i; fin_cases i <;> rfl
+theorem U9_constX_eq_loop (c : α) : U9.constX c = L.constX (n := 9) c := by
+  funext i; fin_cases i <;> rfl
+theorem U9_varXBase_eq_loop (c : α) : U9.varXBase c = L.varXBase (n := 9) c := by
+  funext i; fin_cases i <;> rfl
+theorem U9_ops2_eq_loop : (U9.ops2 : ADOps2 α 9) = L.ops2 :=
+  ADOps2.ext (funext fun a => U9_addSelf_eq_loop a) (funext fun a => U9_subSelf_eq_loop a) (funext fun a => U9_mulSelf_eq_loop a) (funext fun a => U9_divSelf_eq_loop a) (funext fun a => funext fun b => U9_eqE_eq_loop a b) (funext fun a => funext fun b => U9_neE_eq_loop a b) (funext fun a => funext fun b => U9_ltE_eq_loop a b) (funext fun a => funext fun b => U9_gtE_eq_loop a b) (funext fun a => funext fun b => U9_leE_eq_loop a b) (funext fun a => funext fun b => U9_geE_eq_loop a b) (funext fun a => funext fun c => U9_eqS_eq_loop a c) (funext fun a => funext fun c => U9_neS_eq_loop a c) (funext fun a => funext fun c => U9_ltS_eq_loop a c) (funext fun a => funext fun c => U9_gtS_eq_loop a c) (funext fun a => funext fun c => U9_leS_eq_loop a c) (funext fun a => funext fun c => U9_geS_eq_loop a c) (funext fun c => funext fun a => U9_sne_eq_loop c a) (funext fun c => funext fun a => U9_slt_eq_loop c a) (funext fun c => funext fun a => U9_sgt_eq_loop c a) (funext fun c => funext fun a => U9_sle_eq_loop c a) (funext fun c => funext fun a => U9_sge_eq_loop c a) (U9_constZero_eq_loop) (U9_constOne_eq_loop) (funext fun c => U9_constX_eq_loop c) (funext fun c => U9_varXBase_eq_loop c)
+
+/-! #### Evaluation10.hpp -/
+theorem U10_addSelf_eq_loop (a : Fin (11) → α) : U10.addSelf a = L.addSelf (n := 10) a := by
+  funext i; fin_cases i <;> rfl
+theorem U10_subSelf_eq_loop (a : Fin (11) → α) : U10.subSelf a = L.subSelf (n := 10) a := by
+  funext i; fin_cases i <;> rfl
+theorem U10_mulSelf_eq_loop (a : Fin (11) → α) : U10.mulSelf a = L.mulSelf (n := 10) a := by
+  funext i; fin_cases i <;> rfl
+theorem U10_divSelf_eq_loop (a : Fin (11) → α) : U10.divSelf a = L.divSelf (n := 10) a := by
+  funext i; fin_cases i <;> rfl
+theorem U10_eqE_eq_loop (a b : Fin (11) → α) : U10.eqE a b = L.eqE (n := 10) a b := by
+  first | rfl | (unfold U10.eqE L.eqE; congr 2; funext i; fin_cases i <;> rfl) | (unfold U10.eqE L.eqE; congr 3; funext i; fin_cases i <;> rfl)
+theorem U10_neE_eq_loop (a b : Fin (11) → α) : U10.neE a b = L.neE (n := 10) a b := by
+  first | rfl | (unfold U10.neE L.neE; congr 2; funext i; fin_cases i <;> rfl) | (unfold U10.neE L.neE; congr 3; funext i; fin_cases i <;> rfl)
+theorem U10_ltE_eq_loop (a b : Fin (11) → α) : U10.ltE a b = L.ltE (n := 10) a b := by
+  first | rfl | (unfold U10.ltE L.ltE; congr 2; funext i; fin_cases i <;> rfl) | (unfold U10.ltE L.ltE; congr 3; funext i; fin_cases i <;> rfl)
+theorem U10_gtE_eq_loop (a b : Fin (11) → α) : U10.gtE a b = L.gtE (n := 10) a b := by
+  first | rfl | (unfold U10.gtE L.gtE; congr 2; funext i; fin_cases i <;> rfl) | (unfold U10.gtE L.gtE; congr 3; funext i; fin_cases i <;> rfl)
+theorem U10_leE_eq_loop (a b : Fin (11) → α) : U10.leE a b = L.leE (n := 10) a b := by
+  first | rfl | (unfold U10.leE L.leE; congr 2; funext i; fin_cases i <;> rfl) | (unfold U10.leE L.leE; congr 3; funext i; fin_cases i <;> rfl)
+theorem U10_geE_eq_loop (a b : Fin (11) → α) : U10.geE a b = L.geE (n := 10) a b := by
+  first | rfl | (unfold U10.geE L.geE; congr 2; funext i; fin_cases i <;> rfl) | (unfold U10.geE L.geE; congr 3; funext i; fin_cases i <;> rfl)
+theorem U10_eqS_eq_loop (a : Fin (11) → α) (c : α) : U10.eqS a c = L.eqS (n := 10) a c := by
+  first | rfl | (unfold U10.eqS L.eqS; congr 2; funext i; fin_cases i <;> rfl) | (unfold U10.eqS L.eqS; congr 3; funext i; fin_cases i <;> rfl)
+theorem U10_neS_eq_loop (a : Fin (11) → α) (c : α) : U10.neS a c = L.neS (n := 10) a c := by
+  first | rfl | (unfold U10.neS L.neS; congr 2; funext i; fin_cases i <;> rfl) | (unfold U10.neS L.neS; congr 3; funext i; fin_cases i <;> rfl)
+theorem U10_ltS_eq_loop (a : Fin (11) → α) (c : α) : U10.ltS a c = L.ltS (n := 10) a c := by
+  first | rfl | (unfold U10.ltS L.ltS; congr 2; funext i; fin_cases i <;> rfl) | (unfold U10.ltS L.ltS; congr 3; funext i; fin_cases i <;> rfl)
+theorem U10_gtS_eq_loop (a : Fin (11) → α) (c : α) : U10.gtS a c = L.gtS (n := 10) a c := by
+  first | rfl | (unfold U10.gtS L.gtS; congr 2; funext i; fin_cases i <;> rfl) | (unfold U10.gtS L.gtS; congr 3; funext i; fin_cases i <;> rfl)
+theorem U10_leS_eq_loop (a : Fin (11) → α) (c : α) : U10.leS a c = L.leS (n := 10) a c := by
+  first | rfl | (unfold U10.leS L.leS; congr 2; funext i; fin_cases i <;> rfl) | (unfold U10.leS L.leS; congr 3; funext i; fin_cases i <;> rfl)
+theorem U10_geS_eq_loop (a : Fin (11) → α) (c : α) : U10.geS a c = L.geS (n := 10) a c := by
+  first | rfl | (unfold U10.geS L.geS; congr 2; funext i; fin_cases i <;> rfl) | (unfold U10.geS L.geS; congr 3; funext i; fin_cases i <;> rfl)
+theorem U10_sne_eq_loop (c : α) (a : Fin (11) → α) : U10.sne c a = L.sne (n := 10) c a := by
+  first | rfl | (unfold U10.sne L.sne; congr 2; funext i; fin_cases i <;> rfl) | (unfold U10.sne L.sne; congr 3; funext i; fin_cases i <;> rfl)
+theorem U10_slt_eq_loop (c : α) (a : Fin (11) → α) : U10.slt c a = L.slt (n := 10) c a := by
+  first | rfl | (unfold U10.slt L.slt; congr 2; funext i; fin_cases i <;> rfl) | (unfold U10.slt L.slt; congr 3; funext i; fin_cases i <;> rfl)
+theorem U10_sgt_eq_loop (c : α) (a : Fin (11) → α) : U10.sgt c a = L.sgt (n := 10) c a := by
+  first | rfl | (unfold U10.sgt L.sgt; congr 2; funext i; fin_cases i <;> rfl) | (unfold U10.sgt L.sgt; congr 3; funext i; fin_cases i <;> rfl)
+theorem U10_sle_eq_loop (c : α) (a : Fin (11) → α) : U10.sle c a = L.sle (n := 10) c a := by
+  first | rfl | (unfold U10.sle L.sle; congr 2; funext i; fin_cases i <;> rfl) | (unfold U10.sle L.sle; congr 3; funext i; fin_cases i <;> rfl)
+theorem U10_sge_eq_loop (c : α) (a : Fin (11) → α) : U10.sge c a = L.sge (n := 10) c a := by
+  first | rfl | (unfold U10.sge L.sge; congr 2; funext i; fin_cases i <;> rfl) | (unfold U10.sge L.sge; congr 3; funext i; fin_cases i <;> rfl)
+theorem U10_constZero_eq_loop : (U10.constZero : Fin (11) → α) = L.constZero (n := 10) := by
+  funext i; fin_cases i <;> rfl
+theorem U10_constOne_eq_loop : (U10.constOne : Fin (11) → α) = L.constOne (n := 10) := by
+  funext i; fin_cases i <;> rfl
+theorem U10_constX_eq_loop (c : α) : U10.constX c = L.constX (n := 10) c := by
+  funext i; fin_cases i <;> rfl
+theorem U10_varXBase_eq_loop (c : α) : U10.varXBase c = L.varXBase (n := 10) c := by
+  funext i; fin_cases i <;> rfl
+theorem U10_ops2_eq_loop : (U10.ops2 : ADOps2 α 10) = L.ops2 :=
+  ADOps2.ext (funext fun a => U10_addSelf_eq_loop a) (funext fun a => U10_subSelf_eq_loop a) (funext fun a => U10_mulSelf_eq_loop a) (funext fun a => U10_divSelf_eq_loop a) (funext fun a => funext fun b => U10_eqE_eq_loop a b) (funext fun a => funext fun b => U10_neE_eq_loop a b) (funext fun a => funext fun b => U10_ltE_eq_loop a b) (funext fun a => funext fun b => U10_gtE_eq_loop a b) (funext fun a => funext fun b => U10_leE_eq_loop a b) (funext fun a => funext fun b => U10_geE_eq_loop a b) (funext fun a => funext fun c => U10_eqS_eq_loop a c) (funext fun a => funext fun c => U10_neS_eq_loop a c) (funext fun a => funext fun c => U10_ltS_eq_loop a c) (funext fun a => funext fun c => U10_gtS_eq_loop a c) (funext fun a => funext fun c => U10_leS_eq_loop a c) (funext fun a => funext fun c => U10_geS_eq_loop a c) (funext fun c => funext fun a => U10_sne_eq_loop c a) (funext fun c => funext fun a => U10_slt_eq_loop c a) (funext fun c => funext fun a => U10_sgt_eq_loop c a) (funext fun c => funext fun a => U10_sle_eq_loop c a) (funext fun c => funext fun a => U10_sge_eq_loop c a) (U10_constZero_eq_loop) (U10_constOne_eq_loop) (funext fun c => U10_constX_eq_loop c) (funext fun c => U10_varXBase_eq_loop c)
+
+/-! #### Evaluation11.hpp -/
+theorem U11_addSelf_eq_loop (a : Fin (12) → α) : U11.addSelf a = L.addSelf (n := 11) a := by
+  funext i; fin_cases i <;> rfl
+theorem U11_subSelf_eq_loop (a : Fin (12) → α) : U11.subSelf a = L.subSelf (n := 11) a := by
+  funext i; fin_cases i <;> rfl
+theorem U11_mulSelf_eq_loop (a : Fin (12) → α) : U11.mulSelf a = L.mulSelf (n := 11) a := by
+  funext i; fin_cases i <;> rfl
+theorem U11_divSelf_eq_loop (a : Fin (12) → α) : U11.divSelf a = L.divSelf (n := 11) a := by
+  funext i; fin_cases i <;> rfl
+theorem U11_eqE_eq_loop (a b : Fin (12) → α) : U11.eqE a b = L.eqE (n := 11) a b := by
+  first | rfl | (unfold U11.eqE L.eqE; congr 2; funext i; fin_cases i <;> rfl) | (unfold U11.eqE L.eqE; congr 3; funext i; fin_cases i <;> rfl)
+theorem U11_neE_eq_loop (a b : Fin (12) → α) : U11.neE a b = L.neE (n := 11) a b := by
+  first | rfl | (unfold U11.neE L.neE; congr 2; funext i; fin_cases i <;> rfl) | (unfold U11.neE L.neE; congr 3; funext i; fin_cases i <;> rfl)
+theorem U11_ltE_eq_loop (a b : Fin (12) → α) : U11.ltE a b = L.ltE (n := 11) a b := by
+  first | rfl | (unfold U11.ltE L.ltE; congr 2; funext i; fin_cases i <;> rfl) | (unfold U11.ltE L.ltE; congr 3; funext i; fin_cases i <;> rfl)
+theorem U11_gtE_eq_loop (a b : Fin (12) → α) : U11.gtE a b = L.gtE (n := 11) a b := by
+  first | rfl | (unfold U11.gtE L.gtE; congr 2; funext i; fin_cases i <;> rfl) | (unfold U11.gtE L.gtE; congr 3; funext i; fin_cases i <;> rfl)
+theorem U11_leE_eq_loop (a b : Fin (12) → α) : U11.leE a b = L.leE (n := 11) a b := by
+  first | rfl | (unfold U11.leE L.leE; congr 2; funext i; fin_cases i <;> rfl) | (unfold U11.leE L.leE; congr 3; funext i; fin_cases i <;> rfl)
+theorem U11_geE_eq_loop (a b : Fin (12) → α) : U11.geE a b = L.geE (n := 11) a b := by
+  first | rfl | (unfold U11.geE L.geE; congr 2; funext i; fin_cases i <;> rfl) | (unfold U11.geE L.geE; congr 3; funext i; fin_cases i <;> rfl)
+theorem U11_eqS_eq_loop (a : Fin (12) → α) (c : α) : U11.eqS a c = L.eqS (n := 11) a c := by
+  first | rfl | (unfold U11.eqS L.eqS; congr 2; funext i; fin_cases i <;> rfl) | (unfold U11.eqS L.eqS; congr 3; funext i; fin_cases i <;> rfl)
+theorem U11_neS_eq_loop (a : Fin (12) → α) (c : α) : U11.neS a c = L.neS (n := 11) a c := by
+  first | rfl | (unfold U11.neS L.neS; congr 2; funext i; fin_cases i <;> rfl) | (unfold U11.neS L.neS; congr 3; funext i; fin_cases i <;> rfl)
+theorem U11_ltS_eq_loop (a : Fin (12) → α) (c : α) : U11.ltS a c = L.ltS (n := 11) a c := by
+  first | rfl | (unfold U11.ltS L.ltS; congr 2; funext i; fin_cases i <;> rfl) | (unfold U11.ltS L.ltS; congr 3; funext i; fin_cases i <;> rfl)
+theorem U11_gtS_eq_loop (a : Fin (12) → α) (c : α) : U11.gtS a c = L.gtS (n := 11) a c := by
+  first | rfl | (unfold U11.gtS L.gtS; congr 2; funext i; fin_cases i <;> rfl) | (unfold U11.gtS L.gtS; congr 3; funext i; fin_cases i <;> rfl)
+theorem U11_leS_eq_loop (a : Fin (12) → α) (c : α) : U11.leS a c = L.leS (n := 11) a c := by
+  first | rfl | (unfold U11.leS L.leS; congr 2; funext i; fin_cases i <;> rfl) | (unfold U11.leS L.leS; congr 3; funext i; fin_cases i <;> rfl)
+theorem U11_geS_eq_loop (a : Fin (12) → α) (c : α) : U11.geS a c = L.geS (n := 11) a c := by
+  first | rfl | (unfold U11.geS L.geS; congr 2; funext i; fin_cases i <;> rfl) | (unfold U11.geS L.geS; congr 3; funext i; fin_cases i <;> rfl)
+theorem U11_sne_eq_loop (c : α) (a : Fin (12) → α) : U11.sne c a = L.sne (n := 11) c a := by
+  first | rfl | (unfold U11.sne L.sne; congr 2; funext i; fin_cases i <;> rfl) | (unfold U11.sne L.sne; congr 3; funext i; fin_cases i <;> rfl)
+theorem U11_slt_eq_loop (c : α) (a : Fin (12) → α) : U11.slt c a = L.slt (n := 11) c a := by
+  first | rfl | (unfold U11.slt L.slt; congr 2; funext i; fin_cases i <;> rfl) | (unfold U11.slt L.slt; congr 3; funext i; fin_cases i <;> rfl)
+theorem U11_sgt_eq_loop (c : α) (a : Fin (12) → α) : U11.sgt c a = L.sgt (n := 11) c a := by
+  first | rfl | (unfold U11.sgt L.sgt; congr 2; funext i; fin_cases i <;> rfl) | (unfold U11.sgt L.sgt; congr 3; funext i; fin_cases i <;> rfl)
+theorem U11_sle_eq_loop (c : α) (a : Fin (12) → α) : U11.sle c a = L.sle (n := 11) c a := by
+  first | rfl | (unfold U11.sle L.sle; congr 2; funext i; fin_cases i <;> rfl) | (unfold U11.sle L.sle; congr 3; funext i; fin_cases i <;> rfl)
+theorem U11_sge_eq_loop (c : α) (a : Fin (12) → α) : U11.sge c a = L.sge (n := 11) c a := by
+  first | rfl | (unfold U11.sge L.sge; congr 2; funext i; fin_cases i <;> rfl) | (unfold U11.sge L.sge; congr 3; funext i; fin_cases i <;> rfl)
+theorem U11_constZero_eq_loop : (U11.constZero : Fin (12) → α) = L.constZero (n := 11) := by
+  funext i; fin_cases i <;> rfl
+theorem U11_constOne_eq_loop : (U11.constOne : Fin (12) → α) = L.constOne (n := 11) := by
+  funext i; fin_cases i <;> rfl
+theorem U11_constX_eq_loop (c : α) : U11.constX c = L.constX (n := 11) c := by
+  funext i; fin_cases i <;> rfl
+theorem U11_varXBase_eq_loop (c : α) : U11.varXBase c = L.varXBase (n := 11) c := by
+  funext i; fin_cases i <;> rfl
+theorem U11_ops2_eq_loop : (U11.ops2 : ADOps2 α 11) = L.ops2 :=
+  ADOps2.ext (funext fun a => U11_addSelf_eq_loop a) (funext fun a => U11_subSelf_eq_loop a) (funext fun a => U11_mulSelf_eq_loop a) (funext fun a => U11_divSelf_eq_loop a) (funext fun a => funext fun b => U11_eqE_eq_loop a b) (funext fun a => funext fun b => U11_neE_eq_loop a b) (funext fun a => funext fun b => U11_ltE_eq_loop a b) (funext fun a => funext fun b => U11_gtE_eq_loop a b) (funext fun a => funext fun b => U11_leE_eq_loop a b) (funext fun a => funext fun b => U11_geE_eq_loop a b) (funext fun a => funext fun c => U11_eqS_eq_loop a c) (funext fun a => funext fun c => U11_neS_eq_loop a c) (funext fun a => funext fun c => U11_ltS_eq_loop a c) (funext fun a => funext fun c => U11_gtS_eq_loop a c) (funext fun a => funext fun c => U11_leS_eq_loop a c) (funext fun a => funext fun c => U11_geS_eq_loop a c) (funext fun c => funext fun a => U11_sne_eq_loop c a) (funext fun c => funext fun a => U11_slt_eq_loop c a) (funext fun c => funext fun a => U11_sgt_eq_loop c a) (funext fun c => funext fun a => U11_sle_eq_loop c a) (funext fun c => funext fun a => U11_sge_eq_loop c a) (U11_constZero_eq_loop) (U11_constOne_eq_loop) (funext fun c => U11_constX_eq_loop c) (funext fun c => U11_varXBase_eq_loop c)
+
+/-! #### Evaluation12.hpp -/
+theorem U12_addSelf_eq_loop (a : Fin (13) → α) : U12.addSelf a = L.addSelf (n := 12) a := by
+  funext i; fin_cases i <;> rfl
+theorem U12_subSelf_eq_loop (a : Fin (13) → α) : U12.subSelf a = L.subSelf (n := 12) a := by
+  funext i; fin_cases i <;> rfl
+theorem U12_mulSelf_eq_loop (a : Fin (13) → α) : U12.mulSelf a = L.mulSelf (n := 12) a := by
+  funext i; fin_cases i <;> rfl
+theorem U12_divSelf_eq_loop (a : Fin (13) → α) : U12.divSelf a = L.divSelf (n := 12) a := by
+  funext i; fin_cases i <;> rfl
+theorem U12_eqE_eq_loop (a b : Fin (13) → α) : U12.eqE a b = L.eqE (n := 12) a b := by
+  first | rfl | (unfold U12.eqE L.eqE; congr 2; funext i; fin_cases i <;> rfl) | (unfold U12.eqE L.eqE; congr 3; funext i; fin_cases i <;> rfl)
+theorem U12_neE_eq_loop (a b : Fin (13) → α) : U12.neE a b = L.neE (n := 12) a b := by
+  first | rfl | (unfold U12.neE L.neE; congr 2; funext i; fin_cases i <;> rfl) | (unfold U12.neE L.neE; congr 3; funext i; fin_cases i <;> rfl)
+theorem U12_ltE_eq_loop (a b : Fin (13) → α) : U12.ltE a b = L.ltE (n := 12) a b := by
+  first | rfl | (unfold U12.ltE L.ltE; congr 2; funext i; fin_cases i <;> rfl) | (unfold U12.ltE L.ltE; congr 3; funext i; fin_cases i <;> rfl)
+theorem U12_gtE_eq_loop (a b : Fin (13) → α) : U12.gtE a b = L.gtE (n := 12) a b := by
+  first | rfl | (unfold U12.gtE L.gtE; congr 2; funext i; fin_cases i <;> rfl) | (unfold U12.gtE L.gtE; congr 3; funext i; fin_cases i <;> rfl)
+theorem U12_leE_eq_loop (a b : Fin (13) → α) : U12.leE a b = L.leE (n := 12) a b := by
+  first | rfl | (unfold U12.leE L.leE; congr 2; funext i; fin_cases i <;> rfl) | (unfold U12.leE L.leE; congr 3; funext i; fin_cases i <;> rfl)
+theorem U12_geE_eq_loop (a b : Fin (13) → α) : U12.geE a b = L.geE (n := 12) a b := by
+  first | rfl | (unfold U12.geE L.geE; congr 2; funext i; fin_cases i <;> rfl) | (unfold U12.geE L.geE; congr 3; funext i; fin_cases i <;> rfl)
+theorem U12_eqS_eq_loop (a : Fin (13) → α) (c : α) : U12.eqS a c = L.eqS (n := 12) a c := by
+  first | rfl | (unfold U12.eqS L.eqS; congr 2; funext i; fin_cases i <;> rfl) | (unfold U12.eqS L.eqS; congr 3; funext i; fin_cases i <;> rfl)
+theorem U12_neS_eq_loop (a : Fin (13) → α) (c : α) : U12.neS a c = L.neS (n := 12) a c := by
+  first | rfl | (unfold U12.neS L.neS; congr 2; funext i; fin_cases i <;> rfl) | (unfold U12.neS L.neS; congr 3; funext i; fin_cases i <;> rfl)
+theorem U12_ltS_eq_loop (a : Fin (13) → α) (c : α) : U12.ltS a c = L.ltS (n := 12) a c := by
+  first | rfl | (unfold U12.ltS L.ltS; congr 2; funext i; fin_cases i <;> rfl) | (unfold U12.ltS L.ltS; congr 3; funext i; fin_cases i <;> rfl)
+theorem U12_gtS_eq_loop (a : Fin (13) → α) (c : α) : U12.gtS a c = L.gtS (n := 12) a c := by
+  first | rfl | (unfold U12.gtS L.gtS; congr 2; funext i; fin_cases i <;> rfl) | (unfold U12.gtS L.gtS; congr 3; funext i; fin_cases i <;> rfl)
+theorem U12_leS_eq_loop (a : Fin (13) → α) (c : α) : U12.leS a c = L.leS (n := 12) a c := by
+  first | rfl | (unfold U12.leS L.leS; congr 2; funext i; fin_cases i <;> rfl) | (unfold U12.leS L.leS; congr 3; funext i; fin_cases i <;> rfl)
+theorem U12_geS_eq_loop (a : Fin (13) → α) (c : α) : U12.geS a c = L.geS (n := 12) a c := by
+  first | rfl | (unfold U12.geS L.geS; congr 2; funext i; fin_cases i <;> rfl) | (unfold U12.geS L.geS; congr 3; funext i; fin_cases i <;> rfl)
+theorem U12_sne_eq_loop (c : α) (a : Fin (13) → α) : U12.sne c a = L.sne (n := 12) c a := by
+  first | rfl | (unfold U12.sne L.sne; congr 2; funext i; fin_cases i <;> rfl) | (unfold U12.sne L.sne; congr 3; funext i; fin_cases i <;> rfl)
+theorem U12_slt_eq_loop (c : α) (a : Fin (13) → α) : U12.slt c a = L.slt (n := 12) c a := by
+  first | rfl | (unfold U12.slt L.slt; congr 2; funext i; fin_cases i <;> rfl) | (unfold U12.slt L.slt; congr 3; funext i; fin_cases i <;> rfl)
+theorem U12_sgt_eq_loop (c : α) (a : Fin (13) → α) : U12.sgt c a = L.sgt (n := 12) c a := by
+  first | rfl | (unfold U12.sgt L.sgt; congr 2; funext i; fin_cases i <;> rfl) | (unfold U12.sgt L.sgt; congr 3; funext i; fin_cases i <;> rfl)
+theorem U12_sle_eq_loop (c : α) (a : Fin (13) → α) : U12.sle c a = L.sle (n := 12) c a := by
+  first | rfl | (unfold U12.sle L.sle; congr 2; funext i; fin_cases i <;> rfl) | (unfold U12.sle L.sle; congr 3; funext i; fin_cases i <;> rfl)
+theorem U12_sge_eq_loop (c : α) (a : Fin (13) → α) : U12.sge c a = L.sge (n := 12) c a := by
+  first | rfl | (unfold U12.sge L.sge; congr 2; funext i; fin_cases i <;> rfl) | (unfold U12.sge L.sge; congr 3; funext i; fin_cases i <;> rfl)
+theorem U12_constZero_eq_loop : (U12.constZero : Fin (13) → α) = L.constZero (n := 12) := by
+  funext i; fin_cases i <;> rfl
+theorem U12_constOne_eq_loop : (U12.constOne : Fin (13) → α) = L.constOne (n := 12) := by
+  funext i; fin_cases i <;> rfl
+theorem U12_constX_eq_loop (c : α) : U12.constX c = L.constX (n := 12) c := by
+  funext i; fin_cases i <;> rfl
+theorem U12_varXBase_eq_loop (c : α) : U12.varXBase c = L.varXBase (n := 12) c := by
+  funext i; fin_cases i <;> rfl
+theorem U12_ops2_eq_loop : (U12.ops2 : ADOps2 α 12) = L.ops2 :=
+  ADOps2.ext (funext fun a => U12_addSelf_eq_loop a) (funext fun a => U12_subSelf_eq_loop a) (funext fun a => U12_mulSelf_eq_loop a) (funext fun a => U12_divSelf_eq_loop a) (funext fun a => funext fun b => U12_eqE_eq_loop a b) (funext fun a => funext fun b => U12_neE_eq_loop a b) (funext fun a => funext fun b => U12_ltE_eq_loop a b) (funext fun a => funext fun b => U12_gtE_eq_loop a b) (funext fun a => funext fun b => U12_leE_eq_loop a b) (funext fun a => funext fun b => U12_geE_eq_loop a b) (funext fun a => funext fun c => U12_eqS_eq_loop a c) (funext fun a => funext fun c => U12_neS_eq_loop a c) (funext fun a => funext fun c => U12_ltS_eq_loop a c) (funext fun a => funext fun c => U12_gtS_eq_loop a c) (funext fun a => funext fun c => U12_leS_eq_loop a c) (funext fun a => funext fun c => U12_geS_eq_loop a c) (funext fun c => funext fun a => U12_sne_eq_loop c a) (funext fun c => funext fun a => U12_slt_eq_loop c a) (funext fun c => funext fun a => U12_sgt_eq_loop c a) (funext fun c => funext fun a => U12_sle_eq_loop c a) (funext fun c => funext fun a => U12_sge_eq_loop c a) (U12_constZero_eq_loop) (U12_constOne_eq_loop) (funext fun c => U12_constX_eq_loop c) (funext fun c => U12_varXBase_eq_loop c)
+
+/-! #### DynamicEvaluation.hpp -/
+variable {n : Nat}
+theorem D_addSelf_eq_loop (a : Fin (n + 1) → α) : D.addSelf a = L.addSelf (n := n) a := by
+  rfl
+theorem D_subSelf_eq_loop (a : Fin (n + 1) → α) : D.subSelf a = L.subSelf (n := n) a := by
+  rfl
+theorem D_mulSelf_eq_loop (a : Fin (n + 1) → α) : D.mulSelf a = L.mulSelf (n := n) a := by
+  rfl
+theorem D_divSelf_eq_loop (a : Fin (n + 1) → α) : D.divSelf a = L.divSelf (n := n) a := by
+  rfl
+theorem D_eqE_eq_loop (a b : Fin (n + 1) → α) : D.eqE a b = L.eqE (n := n) a b := by
+  first | rfl | (unfold D.eqE L.eqE; congr 2; funext i; rfl) | (unfold D.eqE L.eqE; congr 3; funext i; rfl)
+theorem D_neE_eq_loop (a b : Fin (n + 1) → α) : D.neE a b = L.neE (n := n) a b := by
+  first | rfl | (unfold D.neE L.neE; congr 2; funext i; rfl) | (unfold D.neE L.neE; congr 3; funext i; rfl)
+theorem D_ltE_eq_loop (a b : Fin (n + 1) → α) : D.ltE a b = L.ltE (n := n) a b := by
+  first | rfl | (unfold D.ltE L.ltE; congr 2; funext i; rfl) | (unfold D.ltE L.ltE; congr 3; funext i; rfl)
+theorem D_gtE_eq_loop (a b : Fin (n + 1) → α) : D.gtE a b = L.gtE (n := n) a b := by
+  first | rfl | (unfold D.gtE L.gtE; congr 2; funext i; rfl) | (unfold D.gtE L.gtE; congr 3; funext i; rfl)
+theorem D_leE_eq_loop (a b : Fin (n + 1) → α) : D.leE a b = L.leE (n := n) a b := by
+  first | rfl | (unfold D.leE L.leE; congr 2; funext i; rfl) | (unfold D.leE L.leE; congr 3; funext i; rfl)
+theorem D_geE_eq_loop (a b : Fin (n + 1) → α) : D.geE a b = L.geE (n := n) a b := by
+  first | rfl | (unfold D.geE L.geE; congr 2; funext i; rfl) | (unfold D.geE L.geE; congr 3; funext i; rfl)
+theorem D_eqS_eq_loop (a : Fin (n + 1) → α) (c : α) : D.eqS a c = L.eqS (n := n) a c := by
+  first | rfl | (unfold D.eqS L.eqS; congr 2; funext i; rfl) | (unfold D.eqS L.eqS; congr 3; funext i; rfl)
+theorem D_neS_eq_loop (a : Fin (n + 1) → α) (c : α) : D.neS a c = L.neS (n := n) a c := by
+  first | rfl | (unfold D.neS L.neS; congr 2; funext i; rfl) | (unfold D.neS L.neS; congr 3; funext i; rfl)
+theorem D_ltS_eq_loop (a : Fin (n + 1) → α) (c : α) : D.ltS a c = L.ltS (n := n) a c := by
+  first | rfl | (unfold D.ltS L.ltS; congr 2; funext i; rfl) | (unfold D.ltS L.ltS; congr 3; funext i; rfl)
+theorem D_gtS_eq_loop (a : Fin (n + 1) → α) (c : α) : D.gtS a c = L.gtS (n := n) a c := by
+  first | rfl | (unfold D.gtS L.gtS; congr 2; funext i; rfl) | (unfold D.gtS L.gtS; congr 3; funext i; rfl)
+theorem D_leS_eq_loop (a : Fin (n + 1) → α) (c : α) : D.leS a c = L.leS (n := n) a c := by
+  first | rfl | (unfold D.leS L.leS; congr 2; funext i; rfl) | (unfold D.leS L.leS; congr 3; funext i; rfl)
+theorem D_geS_eq_loop (a : Fin (n + 1) → α) (c : α) : D.geS a c = L.geS (n := n) a c := by
+  first | rfl | (unfold D.geS L.geS; congr 2; funext i; rfl) | (unfold D.geS L.geS; congr 3; funext i; rfl)
+theorem D_sne_eq_loop (c : α) (a : Fin (n + 1) → α) : D.sne c a = L.sne (n := n) c a := by
+  first | rfl | (unfold D.sne L.sne; congr 2; funext i; rfl) | (unfold D.sne L.sne; congr 3; funext i; rfl)
+theorem D_slt_eq_loop (c : α) (a : Fin (n + 1) → α) : D.slt c a = L.slt (n := n) c a := by
+  first | rfl | (unfold D.slt L.slt; congr 2; funext i; rfl) | (unfold D.slt L.slt; congr 3; funext i; rfl)
+theorem D_sgt_eq_loop (c : α) (a : Fin (n + 1) → α) : D.sgt c a = L.sgt (n := n) c a := by
+  first | rfl | (unfold D.sgt L.sgt; congr 2; funext i; rfl) | (unfold D.sgt L.sgt; congr 3; funext i; rfl)
+theorem D_sle_eq_loop (c : α) (a : Fin (n + 1) → α) : D.sle c a = L.sle (n := n) c a := by
+  first | rfl | (unfold D.sle L.sle; congr 2; funext i; rfl) | (unfold D.sle L.sle; congr 3; funext i; rfl)
+theorem D_sge_eq_loop (c : α) (a : Fin (n + 1) → α) : D.sge c a = L.sge (n := n) c a := by
+  first | rfl | (unfold D.sge L.sge; congr 2; funext i; rfl) | (unfold D.sge L.sge; congr 3; funext i; rfl)
+theorem D_constZero_eq_loop : (D.constZero : Fin (n + 1) → α) = L.constZero (n := n) := by
+  rfl
+theorem D_constOne_eq_loop : (D.constOne : Fin (n + 1) → α) = L.constOne (n := n) := by
+  rfl
+theorem D_constX_eq_loop (c : α) : D.constX c = L.constX (n := n) c := by
+  rfl
+theorem D_varXBase_eq_loop (c : α) : D.varXBase c = L.varXBase (n := n) c := by
+  rfl
+theorem D_ops2_eq_loop : (D.ops2 : ADOps2 α n) = L.ops2 :=
+  ADOps2.ext (funext fun a => D_addSelf_eq_loop a) (funext fun a => D_subSelf_eq_loop a) (funext fun a => D_mulSelf_eq_loop a) (funext fun a => D_divSelf_eq_loop a) (funext fun a => funext fun b => D_eqE_eq_loop a b) (funext fun a => funext fun b => D_neE_eq_loop a b) (funext fun a => funext fun b => D_ltE_eq_loop a b) (funext fun a => funext fun b => D_gtE_eq_loop a b) (funext fun a => funext fun b => D_leE_eq_loop a b) (funext fun a => funext fun b => D_geE_eq_loop a b) (funext fun a => funext fun c => D_eqS_eq_loop a c) (funext fun a => funext fun c => D_neS_eq_loop a c) (funext fun a => funext fun c => D_ltS_eq_loop a c) (funext fun a => funext fun c => D_gtS_eq_loop a c) (funext fun a => funext fun c => D_leS_eq_loop a c) (funext fun a => funext fun c => D_geS_eq_loop a c) (funext fun c => funext fun a => D_sne_eq_loop c a) (funext fun c => funext fun a => D_slt_eq_loop c a) (funext fun c => funext fun a => D_sgt_eq_loop c a) (funext fun c => funext fun a => D_sle_eq_loop c a) (funext fun c => funext fun a => D_sge_eq_loop c a) (D_constZero_eq_loop) (D_constOne_eq_loop) (funext fun c => D_constX_eq_loop c) (funext fun c => D_varXBase_eq_loop c)
+
+/-! #### `x op= x` (the argument aliases `*this`) computes `x op x`, in the loop form -/
+theorem L_addSelf_eq (a : Fin (n + 1) → α) : L.addSelf a = L.add a a := rfl
+theorem L_subSelf_eq (a : Fin (n + 1) → α) : L.subSelf a = L.sub a a := rfl
+theorem L_mulSelf_eq (a : Fin (n + 1) → α) : L.mulSelf a = L.mul a a := rfl
+theorem L_divSelf_eq (a : Fin (n + 1) → α) : L.divSelf a = L.div a a := rfl
+end second
+
 end OpmVerif.DenseAd.GenProofs
